@@ -233,6 +233,8 @@ Fixpoint wtb (E : tenv) (A : atlas) (t : gtype) (v : gval) {struct v} : bool :=
   | GPtr t', VPtr (Some x) => wtb E A t' x
   | GAny, VAny None => true
   | GIface _, VAny None => true
+  | GAny, VAny (Some (dt, dv)) => wtb E A dt dv
+  | GIface _, VAny (Some (dt, dv)) => wtb E A dt dv
   | GStruct id, VStruct fs =>
       match env_fields E id with
       | Some fts =>
@@ -273,6 +275,10 @@ Definition blank_at (E : tenv) (fe : field_entry) (v' : gval) : Prop :=
   | Some x => x = zero_of E (fe_type fe)
   end.
 
+(* the type an untyped slot gives to an integer it decodes *)
+Definition any_num_type (k : ikind) (z : Z) : gtype :=
+  if ik_signed k || (z <=? max_i64) then GNum IInt else GNum U64.
+
 (* round-trip equality, directed by the static type (struct fields are
    compared through the atlas entry of the struct type; struct fields that no
    entry mentions are not serialised and not compared) *)
@@ -290,6 +296,13 @@ Inductive req (E : tenv) (A : atlas) : gtype -> gval -> gval -> Prop :=
     req E A t (GVMap (Some es)) (GVMap (Some es'))
 | req_ptr t x x' : req E A t x x' -> req E A (GPtr t) (VPtr (Some x)) (VPtr (Some x'))
 | req_ptr_null t x : nullish x = true -> req E A (GPtr t) (VPtr (Some x)) (VPtr None)
+| req_any t dt x x' : req E A dt x x' -> req E A t (VAny (Some (dt, x))) (VAny (Some (dt, x')))
+| req_any_null t dt x : nullish x = true -> req E A t (VAny (Some (dt, x))) (VAny None)
+| req_any_num t k z :
+    (* the concrete integer type inside an untyped slot is not carried *)
+    req E A t (VAny (Some (GNum k, VNum z))) (VAny (Some (any_num_type k z, VNum z)))
+| req_any_f32 t b : req E A t (VAny (Some (GF32, GVFlt b))) (VAny (Some (GF64, GVFlt b)))
+| req_any_bytearr t n s : req E A t (VAny (Some (GByteArr n, VByteArr s))) (VAny (Some (GBytes, VBytes (Some s))))
 | req_struct t e fields fs fs' :
     atlas_get A t = Some e -> ae_kind e = EStruct fields ->
     (forall fe, In fe fields -> fe_ignore fe = false ->
@@ -1094,16 +1107,16 @@ Qed.
 Lemma inner_cur_O E t v : inner_cur E 0 t v = v.
 Proof. reflexivity. Qed.
 
-Lemma inner_cur_S_nil E k t' v :
-  (forall x, v <> VPtr (Some x)) -> inner_cur E (S k) (GPtr t') v = inner_cur E k t' (zero_of E t').
-Proof. intros H. destruct v; try reflexivity. destruct o; [exfalso; eapply H; reflexivity | reflexivity]. Qed.
+Lemma inner_cur_S_nil E k t' :
+  inner_cur E (S k) (GPtr t') (VPtr None) = inner_cur E k t' (zero_of E t').
+Proof. lazy beta iota delta [inner_cur] fix. reflexivity. Qed.
 
 Lemma inner_cur_zero E : forall t n base,
   peel t = (n, base) -> inner_cur E n t (zero_of E t) = zero_of E base.
 Proof.
   induction t; intros pn base Hp; try (cbn in Hp; inversion Hp; subst; apply inner_cur_O).
   rewrite peel_ptr in Hp. inversion Hp; subst. clear Hp.
-  rewrite zero_of_ptr. rewrite inner_cur_S_nil by discriminate. apply IHt. apply surjective_pairing.
+  rewrite zero_of_ptr. rewrite inner_cur_S_nil. apply IHt. apply surjective_pairing.
 Qed.
 
 Lemma wt_wrap E A : forall t n base bv,
@@ -1147,11 +1160,11 @@ Section NullFirst.
     (forall t v ts, wt E A t v -> marshal_kind A f t v = MOk ts -> nf_res v ts).
 
   Lemma nf_zero : nf_all 0.
-  Proof. repeat split; intros; discriminate. Qed.
+  Proof. split; [|split]; intros; discriminate. Qed.
 
   Lemma nf_step f : nf_all f -> nf_all (S f).
   Proof.
-    intros (Hm & Hb & Hk). repeat split.
+    intros (Hm & Hb & Hk). split; [|split].
     - intros t v ts Hw H. rewrite marshal_S in H. destruct (peel t) as [n base] eqn:Hp.
       destruct (peel_deref_wt E A t v n base Hp Hw) as [(Hd & Hn & _) | (bv & Hd & Hwb & Hv)]; rewrite Hd in H.
       + inversion H; subst. intros tg r Hq. inversion Hq; subst. auto.
@@ -1170,6 +1183,7 @@ Section NullFirst.
       destruct t; destruct v; try discriminate;
         try (destruct o as [x|]; try discriminate);
         try (inversion H; subst; auto; fail);
+        try (destruct (ik_signed k); discriminate);
         try (apply mprepend_ok in H; destruct H as (ts' & _ & Hts); discriminate).
       + (* map *)
         destruct f as [|f']; [discriminate|]. rewrite marshal_map_S in H.
@@ -1179,8 +1193,8 @@ Section NullFirst.
       + destruct f as [|f']; [discriminate|]. rewrite marshal_map_S in H.
         destruct (map_stringer A t1); [|discriminate]. cbv zeta in H.
         destruct (existsb _ _); [discriminate|]. inversion H; subst. auto.
-      + (* any *) destruct x as [dt dv]. unfold wt in Hw. cbn in Hw. discriminate.
-      + destruct x as [dt dv]. unfold wt in Hw. cbn in Hw. discriminate.
+      + destruct x as [dt dv]. cbn [nullish]. exact (Hm dt dv _ Hw H tg r eq_refl).
+      + destruct x as [dt dv]. cbn [nullish]. exact (Hm dt dv _ Hw H tg r eq_refl).
   Qed.
 
   Lemma nf_all_holds f : nf_all f.
@@ -1191,6 +1205,212 @@ Section NullFirst.
   Proof. intros Hw H. destruct (nf_all_holds f) as (_ & Hb & _). eapply Hb; eauto. Qed.
 End NullFirst.
 
+
+(* ====================================================================== *)
+(* Part 6b.  The domain: what untyped slots may hold; native values          *)
+(* ====================================================================== *)
+
+(* dynamic types an untyped slot gives back (up to the integer/float width), or
+   a tagged atlas type, which is reconstructed through its tag *)
+Definition any_ok (A : atlas) (dt : gtype) : bool :=
+  match dt with
+  | GBool | GNum _ | GF32 | GF64 | GStr | GBytes | GByteArr _ => true
+  | GSlice GAny => true
+  | GMap GStr GAny => true
+  | _ =>
+      match atlas_get A dt with
+      | Some e =>
+          match ae_tag e with
+          | Some tg => match atlas_by_tag A tg with Some e' => gtype_eqb (ae_type e') dt | None => false end
+          | None => false
+          end
+      | None => false
+      end
+  end.
+
+Fixpoint dom_fields (d : gtype -> gval -> bool) (fts : list gtype) (fs : list gval) : bool :=
+  match fts, fs with
+  | ft :: fts', x :: fs' => d ft x && dom_fields d fts' fs'
+  | _, _ => true
+  end.
+
+(* [domb E A t v]: every interface value inside v (following the static types)
+   holds nil, a null-marshalling value, or a value of an [any_ok] dynamic type *)
+Fixpoint domb (E : tenv) (A : atlas) (t : gtype) (v : gval) {struct v} : bool :=
+  match strip_named t, v with
+  | GSlice et, VSlice (Some l) => forallb (domb E A et) l
+  | GArr _ et, GVArr l => forallb (domb E A et) l
+  | GMap _ vt, GVMap (Some es) => forallb (fun kv => domb E A vt (snd kv)) es
+  | GPtr t', VPtr (Some x) => domb E A t' x
+  | GAny, VAny (Some (dt, dv)) => domb E A dt dv && (nullish dv || any_ok A dt)
+  | GIface _, VAny (Some (dt, dv)) => domb E A dt dv && (nullish dv || any_ok A dt)
+  | GStruct id, VStruct fs =>
+      match env_fields E id with
+      | Some fts =>
+          (fix go (fts : list gtype) (fs : list gval) {struct fs} : bool :=
+             match fts, fs with
+             | ft :: fts', x :: fs' => domb E A ft x && go fts' fs'
+             | _, _ => true
+             end) fts fs
+      | None => true
+      end
+  | _, _ => true
+  end.
+
+Lemma dom_struct_eq E A t fs :
+  domb E A t (VStruct fs) =
+  match strip_named t with
+  | GStruct id => match env_fields E id with Some fts => dom_fields (domb E A) fts fs | None => true end
+  | _ => true
+  end.
+Proof.
+  cbn [domb]. destruct (strip_named t); try reflexivity.
+  destruct (env_fields E id) as [fts|]; [|reflexivity].
+  revert fts. induction fs as [|x fs IH]; intros [|ft fts]; cbn; try reflexivity.
+  rewrite IH. reflexivity.
+Qed.
+
+Lemma dom_fields_nth (d : gtype -> gval -> bool) : forall fts fs i ft x,
+  dom_fields d fts fs = true -> nth_error fts i = Some ft -> nth_error fs i = Some x -> d ft x = true.
+Proof.
+  induction fts as [|ft0 fts IH]; intros [|x0 fs] i ft x H Ha Hb; try (destruct i; discriminate).
+  cbn in H. apply andb_true_iff in H. destruct H as [H1 H2]. destruct i as [|i]; cbn in Ha, Hb.
+  - inversion Ha; inversion Hb; subst. exact H1.
+  - eapply IH; eassumption.
+Qed.
+
+Lemma sview_dom E A t v st fs w so :
+  sview E t v st fs w so -> so <> None -> domb E A t v = domb E A st (VStruct fs).
+Proof. intros H Hn. destruct H; subst; try reflexivity. contradiction Hn; reflexivity. Qed.
+
+(* what a route reaches in a value of the domain is in the domain *)
+Lemma traverse_dom E A : forall r t v ft x,
+  wt E A t v -> domb E A t v = true -> route_okb E t r ft = true -> traverse r v = Some x ->
+  domb E A ft x = true.
+Proof.
+  induction r as [|i r IH]; intros t v ft x Hw Hd Hr Ht.
+  - cbn in Hr. apply gtype_eqb_eq in Hr. subst. cbn in Ht. inversion Ht; subst. exact Hd.
+  - destruct (sview_exists E A t v i r ft Hw Hr) as (st & id & fts & fti & fs & w & so & Hv & Hs & He & Hni & Hr' & Hwf & Hnb & Hso).
+    rewrite (traverse_view E t v st fs w so i r Hv) in Ht.
+    destruct so as [fs'|]; [|discriminate].
+    rewrite (sview_so E t v st fs w _ fs' Hv eq_refl) in *.
+    destruct (nth_error fs i) as [fv|] eqn:Hfv; [|discriminate].
+    assert (Hds : domb E A st (VStruct fs) = true).
+    { rewrite <- (sview_dom E A t v st fs w _ Hv); [exact Hd | discriminate]. }
+    rewrite dom_struct_eq, Hs, He in Hds.
+    eapply IH; [| | exact Hr' | exact Ht].
+    + eapply wt_fields_nth; eassumption.
+    + eapply dom_fields_nth; eassumption.
+Qed.
+
+Lemma dom_wrap E A : forall t n base bv,
+  peel t = (n, base) -> domb E A t (wrap_ptrs n bv) = domb E A base bv.
+Proof.
+  induction t; intros pn base bv Hp; try (cbn in Hp; inversion Hp; subst; reflexivity).
+  rewrite peel_ptr in Hp. inversion Hp; subst. clear Hp. cbn [wrap_ptrs domb strip_named].
+  apply IHt. apply surjective_pairing.
+Qed.
+
+(* values that marshal to the same tokens again after a round trip: integers in
+   untyped slots have the types the decoder chooses, no float32 or byte array *)
+Definition native_dt (dt : gtype) (dv : gval) : bool :=
+  match dt, dv with
+  | GNum IInt, _ => true
+  | GNum U64, VNum z => max_i64 <? z
+  | GNum _, _ => false
+  | GF32, _ => false
+  | GByteArr _, _ => false
+  | _, _ => true
+  end.
+
+Fixpoint rmv (v : gval) : bool :=
+  match v with
+  | VAny (Some (dt, dv)) => (nullish dv || native_dt dt dv) && rmv dv
+  | VSlice (Some l) | GVArr l | VStruct l => forallb rmv l
+  | GVMap (Some es) => forallb (fun kv => rmv (snd kv)) es
+  | VPtr (Some x) => rmv x
+  | _ => true
+  end.
+
+Lemma rmv_wrap n : forall v, rmv (wrap_ptrs n v) = rmv v.
+Proof. induction n; intros v; cbn; auto. Qed.
+
+Lemma rmv_traverse : forall r v x, rmv v = true -> traverse r v = Some x -> rmv x = true.
+Proof.
+  induction r as [|i r IH]; intros v x Hv Ht.
+  - cbn in Ht. inversion Ht; subst. exact Hv.
+  - rewrite traverse_cons in Ht. destruct (struct_of v) as [fs|] eqn:Hs; [|discriminate].
+    destruct (nth_error fs i) as [f|] eqn:Hn; [|discriminate].
+    eapply IH; [|exact Ht].
+    assert (Hfs : forallb rmv fs = true).
+    { destruct v; try discriminate.
+      - destruct o as [y|]; [|discriminate]. destruct y; try discriminate. inversion Hs; subst. exact Hv.
+      - inversion Hs; subst. exact Hv. }
+    rewrite forallb_forall in Hfs. apply Hfs. eapply nth_error_In. exact Hn.
+Qed.
+
+(* ---------- null-marshalling values marshal as one Null ------------------------- *)
+
+Section NullOnly.
+  Variable E : tenv.
+  Variable A : atlas.
+  Hypothesis Hwf : atlas_wf E A = true.
+
+  Definition nn_all (f : nat) : Prop :=
+    (forall t v ts, wt E A t v -> nullish v = true -> marshal A f t v = MOk ts -> ts = [Tok Null None]) /\
+    (forall t v ts, wt E A t v -> nullish v = true -> marshal_bare A f t v = MOk ts -> ts = [Tok Null None]) /\
+    (forall t v ts, wt E A t v -> nullish v = true -> marshal_kind A f t v = MOk ts -> ts = [Tok Null None]).
+
+  Lemma nn_step f : nn_all f -> nn_all (S f).
+  Proof.
+    intros (Hm & Hb & Hk). split; [|split].
+    - intros t v ts Hw Hn H. rewrite marshal_S in H. destruct (peel t) as [n base] eqn:Hp.
+      destruct (peel_deref_wt E A t v n base Hp Hw) as [(Hd & _ & _) | (bv & Hd & Hwb & Hv)]; rewrite Hd in H.
+      + inversion H. reflexivity.
+      + eapply Hb; [exact Hwb | | exact H]. rewrite Hv, nullish_wrap in Hn. exact Hn.
+    - intros t v ts Hw Hn H. rewrite marshal_bare_S in H.
+      destruct (is_unnamed_prim t); [eapply Hk; eassumption|].
+      destruct (atlas_get A t) as [e|] eqn:Hg.
+      + destruct (atlas_wf_entry E A t e Hwf Hg) as [He Het].
+        destruct (entry_wf_struct E e He) as (fields & id & _ & Hs & _).
+        rewrite Het in Hs. destruct (wt_struct_inv E A t v id Hw Hs) as (fts & fs & Hv & _). subst v. discriminate.
+      + eapply Hk; [apply wt_strip; exact Hw | exact Hn | exact H].
+    - intros t v ts Hw Hn H. rewrite marshal_kind_S in H.
+      destruct v; try discriminate Hn; destruct o as [x|]; try discriminate Hn;
+        destruct t; try discriminate H; try (inversion H; reflexivity).
+      + (* nil map *)
+        destruct f as [|f']; [discriminate|]. rewrite marshal_map_S in H.
+        destruct (map_stringer A t1); [|discriminate]. cbv zeta in H.
+        destruct (existsb _ _); [discriminate|]. inversion H. reflexivity.
+      + destruct x as [dt dv]. exact (Hm dt dv ts Hw Hn H).
+      + destruct x as [dt dv]. exact (Hm dt dv ts Hw Hn H).
+  Qed.
+
+  Lemma nn_all_holds f : nn_all f.
+  Proof.
+    induction f; [|apply nn_step; assumption].
+    split; [|split]; intros; discriminate.
+  Qed.
+
+  Lemma marshal_nullish f t v ts :
+    wt E A t v -> nullish v = true -> marshal A f t v = MOk ts -> ts = [Tok Null None].
+  Proof. intros Hw Hn H. destruct (nn_all_holds f) as (Hm & _). eapply Hm; eauto. Qed.
+End NullOnly.
+
+(* struct entries only: only struct types have entries (stage 2/3 atlases) *)
+Lemma atlas_get_struct E A t e :
+  atlas_wf E A = true -> atlas_get A t = Some e -> exists id, strip_named t = GStruct id.
+Proof.
+  intros Hwf Hg. destruct (atlas_wf_entry E A t e Hwf Hg) as [He Het].
+  destruct (entry_wf_struct E e He) as (fields & id & _ & Hs & _). rewrite Het in Hs. eauto.
+Qed.
+
+Lemma atlas_get_none_kind E A t :
+  atlas_wf E A = true -> (forall id, strip_named t <> GStruct id) -> atlas_get A t = None.
+Proof.
+  intros Hwf Hn. destruct (atlas_get A t) as [e|] eqn:Hg; [|reflexivity].
+  destruct (atlas_get_struct E A t e Hwf Hg) as [id Hs]. exfalso. eapply Hn. exact Hs.
+Qed.
 (* ====================================================================== *)
 (* Part 7.  Helper lemmas for the main induction                             *)
 (* ====================================================================== *)
@@ -1404,8 +1624,8 @@ Proof.
   - apply IH; assumption.
 Qed.
 
-Lemma prefix_free_filter {X} (g : X -> list nat) (p q : X -> bool) : forall l,
-  (forall x, p x = true -> q x = true) ->
+Lemma prefix_free_filter {X} (g : X -> list nat) (p q : X -> bool) :
+  (forall x, p x = true -> q x = true) -> forall l,
   prefix_free (map g (filter q l)) = true -> prefix_free (map g (filter p l)) = true.
 Proof.
   intros Hpq. induction l as [|x l IH]; intros H; [reflexivity|]. cbn in *.
@@ -1444,10 +1664,11 @@ Proof.
   - inversion H0; subst; [discriminate He | reflexivity].
   - inversion H0; subst; [discriminate He | reflexivity].
   - destruct es; destruct es'; try discriminate; reflexivity.
-  - reflexivity.
   - unfold omit_type_ok in Ho. cbn [strip_named] in Ho.
-    destruct (wt_ptr_inv E A t x Hw) as [Hv | [y [Hv Hy]]]; [discriminate|]. inversion Hv; subst y.
+    destruct (wt_ptr_inv E A t _ Hw) as [Hv | [y [Hv Hy]]]; [discriminate|]. inversion Hv; subst y.
     rewrite (non_nullable_not_nullish E A t x Hy Ho) in H. discriminate.
+  - unfold wt in Hw. cbn [wtb] in Hw. unfold omit_type_ok in Ho.
+    destruct (strip_named ft); discriminate.
   - unfold wt in Hw. rewrite wt_struct_eq in Hw. unfold omit_type_ok in Ho.
     destruct (strip_named ft); discriminate.
 Qed.
@@ -1464,52 +1685,127 @@ Proof.
   - destruct fv; cbn [wtb] in Hw; rewrite Hs in Hw; try discriminate.
     apply andb_true_iff in Hw. destruct Hw as [Hl _]. apply Nat.eqb_eq in Hl.
     destruct l; [|discriminate]. cbn in Hl. subst n. reflexivity.
+  - exfalso. eapply strip_named_not_named. exact Hs.
 Qed.
 
+(* what a route reaches in a well-typed value has the type the route resolves to *)
+Lemma traverse_wt E A : forall r t v ft x,
+  wt E A t v -> route_okb E t r ft = true -> traverse r v = Some x -> wt E A ft x.
+Proof.
+  induction r as [|i r IH]; intros t v ft x Hw Hr Ht.
+  - cbn in Hr. apply gtype_eqb_eq in Hr. subst. cbn in Ht. inversion Ht; subst. exact Hw.
+  - destruct (sview_exists E A t v i r ft Hw Hr) as (st & id & fts & fti & fs & w & so & Hv & Hs & He & Hni & Hr' & Hwf & Hnb & Hso).
+    rewrite (traverse_view E t v st fs w so i r Hv) in Ht.
+    destruct so as [fs'|]; [|discriminate].
+    rewrite (sview_so E t v st fs w _ fs' Hv eq_refl) in *.
+    destruct (nth_error fs i) as [fv|] eqn:Hfv; [|discriminate].
+    eapply IH; [| exact Hr' | exact Ht]. eapply wt_fields_nth; eassumption.
+Qed.
+
+Lemma field_facts E st fields fe :
+  forallb (field_wf E st) fields = true -> In fe fields -> fe_ignore fe = false ->
+  route_okb E st (fe_route fe) (fe_type fe) = true /\ no_bad (zero_of E (fe_type fe)) = true /\
+  (length (fe_route fe) < 50)%nat.
+Proof.
+  intros Hfw Hin Hig. rewrite forallb_forall in Hfw. specialize (Hfw fe Hin).
+  unfold field_wf in Hfw. rewrite Hig in Hfw. cbn [orb] in Hfw.
+  apply andb_true_iff in Hfw. destruct Hfw as [Hfw Hlen]. apply andb_true_iff in Hfw. destruct Hfw as [Hrk Hnb].
+  apply Nat.ltb_lt in Hlen. auto.
+Qed.
+
+Lemma omit_ok_field A e fields fe :
+  omit_ok A = true -> In e (a_entries A) -> ae_kind e = EStruct fields -> In fe fields ->
+  fe_ignore fe = false -> fe_omit fe = true -> omit_type_ok (fe_type fe) = true.
+Proof.
+  intros Ho Hin Hk Hfe Hig Hom. unfold omit_ok in Ho. rewrite forallb_forall in Ho.
+  specialize (Ho e Hin). rewrite Hk in Ho. rewrite forallb_forall in Ho. specialize (Ho fe Hfe).
+  rewrite Hig, Hom in Ho. exact Ho.
+Qed.
+
+
+Lemma req_atom_inv E A t v v' : atom v = true -> req E A t v v' -> v' = v.
+Proof. intros Ha Hr. inversion Hr; subst; try reflexivity; discriminate Ha. Qed.
 (* ====================================================================== *)
 (* Part 8.  The main induction (on the fuel of the marshaller)               *)
 (* ====================================================================== *)
+
+Lemma uconv_pred (G g : nat -> ures) r : (forall f, G (S f) = g f) -> uconv G r -> uconv g r.
+Proof. intros HG [F HF]. exists F. intros f Hle. rewrite <- HG. apply HF. lia. Qed.
+
+Lemma uconv_det (g : nat -> ures) r r' : uconv g r -> uconv g r' -> r = r'.
+Proof. intros [F HF] [F' HF']. rewrite <- (HF (max F F')), <- (HF' (max F F')) by lia. reflexivity. Qed.
+
+Lemma in_kind_any k z : in_kind k z = true ->
+  match any_num_type k z with GNum k' => in_kind k' z = true | _ => False end.
+Proof.
+  unfold any_num_type, in_kind, max_i64.
+  destruct k; cbn [ik_signed ik_min ik_max orb]; intros H;
+    try (destruct (z <=? 9223372036854775807) eqn:Hz); cbn [ik_min ik_max]; lia.
+Qed.
+
+Lemma unmarshal_map_cur E A f kt vt cur cur' ts :
+  match cur with GVMap (Some es) => es | _ => [] end = match cur' with GVMap (Some es) => es | _ => [] end ->
+  unmarshal_map E A f kt vt cur ts = unmarshal_map E A f kt vt cur' ts.
+Proof.
+  intros Hq. destruct f as [|f]; [reflexivity|]. rewrite !unmarshal_map_S.
+  destruct (key_destringer A kt); [|reflexivity].
+  destruct ts as [|[v tg] r]; [reflexivity|]. destruct v; try reflexivity. cbv zeta. rewrite Hq. reflexivity.
+Qed.
+
+Lemma zero_of_map E kt vt : zero_of E (GMap kt vt) = GVMap None.
+Proof. rewrite zero_of_unf. reflexivity. Qed.
+
+Ltac atom_same Hr :=
+  match type of Hr with
+  | req ?E0 ?A0 ?t ?v ?v' =>
+      let Hq := fresh "Hq" in
+      assert (Hq : v' = v) by (apply (req_atom_inv E0 A0 t v v'); [reflexivity | exact Hr]); subst v'
+  end.
 
 Section Main.
   Variable E : tenv.
   Variable A : atlas.
   Hypothesis Hwf : atlas_wf E A = true.
 
-  (* the re-marshalling statements hold under this extra hypothesis *)
+  (* the re-marshalling statements hold under this hypothesis on the atlas and
+     for [rmv] values *)
   Definition rmh : Prop := omit_ok A = true.
 
+  (* the input side: well typed and in the domain *)
+  Definition okv (t : gtype) (v : gval) : Prop := wt E A t v /\ domb E A t v = true.
+
   Definition P_marshal (f : nat) : Prop :=
-    forall t v ts, wt E A t v -> marshal A f t v = MOk ts ->
+    forall t v ts, okv t v -> marshal A f t v = MOk ts ->
     exists v', req E A t v v' /\ wt E A t v' /\
       (forall rest, uconv (fun f' => unmarshal E A f' t (zero_of E t) (ts ++ rest)) (UOk v' rest)) /\
-      (rmh -> marshal A f t v' = MOk ts).
+      (rmh -> rmv v = true -> marshal A f t v' = MOk ts).
 
   Definition P_bare (f : nat) : Prop :=
-    forall t v ts, wt E A t v -> marshal_bare A f t v = MOk ts ->
+    forall t v ts, okv t v -> marshal_bare A f t v = MOk ts ->
     exists v', req E A t v v' /\ wt E A t v' /\
       (forall rest, uconv (fun f' => unmarshal_bare E A f' t (zero_of E t) (ts ++ rest)) (UOk v' rest)) /\
-      (rmh -> marshal_bare A f t v' = MOk ts).
+      (rmh -> rmv v = true -> marshal_bare A f t v' = MOk ts).
 
   Definition P_kind (f : nat) : Prop :=
-    forall t v ts, wt E A t v -> marshal_kind A f (strip_named t) v = MOk ts ->
+    forall t v ts, okv t v -> marshal_kind A f (strip_named t) v = MOk ts ->
     exists v', req E A t v v' /\ wt E A t v' /\
       (forall cur rest, mblank cur = true ->
          uconv (fun f' => unmarshal_kind E A f' (strip_named t) cur (ts ++ rest)) (UOk v' rest)) /\
-      (rmh -> marshal_kind A f (strip_named t) v' = MOk ts).
+      (rmh -> rmv v = true -> marshal_kind A f (strip_named t) v' = MOk ts).
 
   Definition P_items (f : nat) : Prop :=
-    forall et l ts, Forall (wt E A et) l -> marshal_items A f et l = MOk ts ->
+    forall et l ts, Forall (okv et) l -> marshal_items A f et l = MOk ts ->
     exists l', Forall2 (fun x x' => req E A et x x' /\ wt E A et x') l l' /\
       (forall acc rest,
          uconv (fun f' => unmarshal_slice E A f' et acc (ts ++ rest)) (UOk (VSlice (Some (rev acc ++ l'))) rest)) /\
       (forall n acc rest, (length acc + length l <= n)%nat ->
          uconv (fun f' => unmarshal_array E A f' n et acc (ts ++ rest))
                (UOk (GVArr (rev acc ++ l' ++ repeat (zero_of E et) (n - (length acc + length l)))) rest)) /\
-      (rmh -> marshal_items A f et l' = MOk ts).
+      (rmh -> forallb rmv l = true -> marshal_items A f et l' = MOk ts).
 
   Definition P_entries (f : nat) : Prop :=
     forall vt (es : list (bytes * gval)) ts,
-      Forall (fun p => wt E A vt (snd p)) es -> marshal_entries A f vt es = MOk ts ->
+      Forall (fun p => okv vt (snd p)) es -> marshal_entries A f vt es = MOk ts ->
     exists es', Forall2 (fun p p' => fst p = fst p' /\ req E A vt (snd p) (snd p') /\ wt E A vt (snd p')) es es' /\
       (forall destr (kf : bytes -> gval) acc rest,
          (forall p, In p es -> destr (fst p) = Some (kf (fst p))) ->
@@ -1518,35 +1814,36 @@ Section Main.
          (forall p q, In p es -> In q es -> fst p <> fst q -> gval_key_eqb (kf (fst q)) (kf (fst p)) = false) ->
          uconv (fun f' => unmarshal_map_entries E A f' destr vt acc (ts ++ rest))
                (UOk (GVMap (Some (acc ++ map (fun p => (kf (fst p), snd p)) es'))) rest)) /\
-      (rmh -> marshal_entries A f vt es' = MOk ts).
+      (rmh -> forallb (fun p => rmv (snd p)) es = true -> marshal_entries A f vt es' = MOk ts).
 
   Definition P_map (f : nat) : Prop :=
-    forall mode t kt vt o ts, strip_named t = GMap kt vt -> wt E A t (GVMap o) ->
+    forall mode t kt vt o ts, strip_named t = GMap kt vt -> okv t (GVMap o) ->
       marshal_map A f mode kt vt o = MOk ts ->
     exists o', req E A t (GVMap o) (GVMap o') /\ wt E A t (GVMap o') /\
       (forall cur rest, mblank cur = true ->
          uconv (fun f' => unmarshal_map E A f' kt vt cur (ts ++ rest)) (UOk (GVMap o') rest)) /\
-      (rmh -> marshal_map A f mode kt vt o' = MOk ts).
+      (rmh -> rmv (GVMap o) = true -> marshal_map A f mode kt vt o' = MOk ts).
 
   Definition P_entry (f : nat) : Prop :=
-    forall e v ts, atlas_get A (ae_type e) = Some e -> wt E A (ae_type e) v ->
+    forall e v ts, atlas_get A (ae_type e) = Some e -> okv (ae_type e) v ->
       marshal_entry A f e v = MOk ts ->
     exists v', req E A (ae_type e) v v' /\ wt E A (ae_type e) v' /\
       (forall rest, uconv (fun f' => unmarshal_entry E A f' e (zero_of E (ae_type e)) (ts ++ rest)) (UOk v' rest)) /\
-      (rmh -> marshal_entry A f e v' = MOk ts).
+      (rmh -> rmv v = true -> marshal_entry A f e v' = MOk ts).
 
   (* the struct-field loop: l is the list of fields still to come *)
   Definition P_fields (f : nat) : Prop :=
     forall st fields v l ts,
-      wt E A st v ->
+      okv st v ->
       forallb (field_wf E st) fields = true -> names_distinct (map fe_name fields) = true ->
       (forall fe, In fe l -> In fe fields /\ fe_ignore fe = false /\ traverse (fe_route fe) v <> None) ->
       prefix_free (map fe_route l) = true ->
       marshal_fields A f l v = MOk ts ->
-      forall cur count rest, wt E A st cur -> (forall fe, In fe l -> blank_at E fe cur) ->
+      forall cur count, wt E A st cur -> (forall fe, In fe l -> blank_at E fe cur) ->
       exists cur',
-        uconv (fun f' => unmarshal_fields E A f' st fields (count + Z.of_nat (length l)) cur count (ts ++ rest))
-              (UOk cur' rest) /\
+        (forall rest,
+           uconv (fun f' => unmarshal_fields E A f' st fields (count + Z.of_nat (length l)) cur count (ts ++ rest))
+                 (UOk cur' rest)) /\
         wt E A st cur' /\
         (forall fe, In fe l -> exists fv fv', traverse (fe_route fe) v = Some fv /\
             traverse (fe_route fe) cur' = Some fv' /\ req E A (fe_type fe) fv fv' /\ wt E A (fe_type fe) fv') /\
@@ -1554,7 +1851,7 @@ Section Main.
             (forall x, traverse r0 cur = Some x -> traverse r0 cur' = Some x) /\
             (blankr E r0 ft0 cur -> blankr E r0 ft0 cur') /\
             (traverse r0 v = None -> traverse r0 cur = None -> traverse r0 cur' = None)) /\
-        (rmh -> marshal_fields A f l cur' = MOk ts).
+        (rmh -> rmv v = true -> marshal_fields A f l cur' = MOk ts).
 
   Definition P_all (f : nat) : Prop :=
     P_marshal f /\ P_bare f /\ P_kind f /\ P_items f /\ P_entries f /\ P_map f /\ P_entry f /\ P_fields f.
@@ -1565,7 +1862,7 @@ Section Main.
   (* ---- values behind pointers ---- *)
   Lemma step_marshal f : P_bare f -> P_marshal (S f).
   Proof.
-    intros Hb t v ts Hw H. rewrite marshal_S in H. destruct (peel t) as [n base] eqn:Hp.
+    intros Hb t v ts [Hw Hdom] H. rewrite marshal_S in H. destruct (peel t) as [n base] eqn:Hp.
     assert (Hnull : forall n', n = S n' -> exists v', v' = VPtr None /\ wt E A t v' /\
               (forall rest, uconv (fun f' => unmarshal E A f' t (zero_of E t) ([Tok Null None] ++ rest)) (UOk v' rest)) /\
               marshal A (S f) t v' = MOk [Tok Null None]).
@@ -1580,13 +1877,16 @@ Section Main.
       exists (VPtr None). repeat split; auto.
       destruct (peel_S_ptr t n' base Hp) as [t' Ht]. subst t v.
       destruct x as [y|]; [apply req_ptr_null; exact Hn | apply req_atom; reflexivity].
-    - destruct (Hb base bv ts Hwb H) as (bv' & Hr & Hw' & Hu & Hm).
+    - assert (Hokb : okv base bv).
+      { split; [exact Hwb|]. rewrite <- (dom_wrap E A t n base bv Hp), <- Hv. exact Hdom. }
+      destruct (Hb base bv ts Hokb H) as (bv' & Hr & Hw' & Hu & Hm).
+      assert (Hrmb : rmv v = true -> rmv bv = true) by (rewrite Hv, rmv_wrap; auto).
       destruct n as [|n'].
       + (* no pointer *)
         apply peel_zero_base in Hp as Hbase. subst base. cbn in Hv. subst bv.
         exists bv'. repeat split; auto.
         * intros rest. eapply uconv_S; [|apply Hu]. intros f'. rewrite unmarshal_S, Hp. reflexivity.
-        * intros Hrm. rewrite marshal_S, Hp. cbn [deref]. apply Hm. exact Hrm.
+        * intros Hrm Hrv. rewrite marshal_S, Hp. cbn [deref]. apply Hm; auto.
       + assert (Hst : exists tk tg r, ts = Tok tk tg :: r).
         { assert (Hm' : marshal A (S f) base bv = MOk ts).
           { rewrite marshal_S, (peel_nonptr base (peel_base_not_ptr t _ base Hp)). exact H. }
@@ -1607,5 +1907,1040 @@ Section Main.
              ++ intros f'. cbn [app]. rewrite (unmarshal_S_ptr E A f' t n' base _ tk tg _ Hp Hnn).
                 rewrite (inner_cur_zero E t (S n') base Hp). reflexivity.
              ++ apply (uconv_bind _ (fun _ v r => UOk (wrap_ptrs (S n') v) r) bv' rest); [apply (Hu rest) | apply uconv_const].
-          -- intros Hrm. rewrite marshal_S, Hp, deref_wrap. apply Hm. exact Hrm.
+          -- intros Hrm Hrv. rewrite marshal_S, Hp, deref_wrap. apply Hm; auto.
   Qed.
+
+  (* ---- atlas lookup ---- *)
+  Lemma step_bare f : P_kind f -> P_entry f -> P_bare (S f).
+  Proof.
+    intros Hk He t v ts Hok H. pose proof Hok as [Hw Hdom]. rewrite marshal_bare_S in H.
+    destruct (is_unnamed_prim t) eqn:Hup.
+    - destruct (unnamed_prim_primk t Hup) as [Hpk Hst].
+      destruct f as [|f0]; [discriminate|].
+      exists v. destruct (prim_rt E A f0 t v ts (zero_of E t) [] Hpk Hw H) as (tok & Hts & _ & Hat).
+      subst ts. split; [apply req_atom; exact Hat|]. split; [exact Hw|]. split.
+      + intros rest. destruct (prim_rt E A f0 t v [tok] (zero_of E t) rest Hpk Hw H) as (tok' & Hts & Hu & _).
+        inversion Hts; subst tok'.
+        eapply uconv_S; [|apply uconv_const]. intros f'. rewrite unmarshal_bare_S, Hup. exact Hu.
+      + intros _ _. rewrite marshal_bare_S, Hup. exact H.
+    - destruct (atlas_get A t) as [e|] eqn:Hg.
+      + pose proof (atlas_get_type A t e Hg) as Het. subst t.
+        destruct (He e v ts Hg Hok H) as (v' & Hr & Hw' & Hu & Hm).
+        exists v'. repeat split; auto.
+        * intros rest. eapply uconv_S; [|apply Hu]. intros f'. rewrite unmarshal_bare_S, Hup, Hg. reflexivity.
+        * intros Hrm Hrv. rewrite marshal_bare_S, Hup, Hg. apply Hm; auto.
+      + destruct (Hk t v ts Hok H) as (v' & Hr & Hw' & Hu & Hm).
+        exists v'. repeat split; auto.
+        * intros rest. eapply uconv_S; [|apply (Hu (zero_of E t) rest)].
+          -- intros f'. rewrite unmarshal_bare_S, Hup, Hg. reflexivity.
+          -- rewrite zero_of_unf. apply mblank_zero.
+        * intros Hrm Hrv. rewrite marshal_bare_S, Hup, Hg. apply Hm; auto.
+  Qed.
+
+  (* ---- slice and array elements ---- *)
+  Lemma step_items f : P_marshal f -> P_items f -> P_items (S f).
+  Proof.
+    intros Hm Hi et l ts Hw H. rewrite marshal_items_S in H. destruct l as [|x l].
+    - inversion H; subst ts. exists []. split; [constructor|]. split; [|split].
+      + intros acc rest. eapply uconv_S; [|apply uconv_const]. intros f'.
+        rewrite unmarshal_slice_S. cbn [app]. rewrite app_nil_r. reflexivity.
+      + intros n acc rest Hl. eapply uconv_S; [|apply uconv_const]. intros f'.
+        rewrite unmarshal_array_S. cbn [app length]. rewrite Nat.add_0_r. reflexivity.
+      + intros _ _. rewrite marshal_items_S. reflexivity.
+    - apply mseq_ok in H. destruct H as (ts1 & H1 & H). apply mprepend_ok in H. destruct H as (ts2 & H2 & Hts).
+      subst ts. inversion Hw as [|? ? Hwx Hwl]; subst.
+      destruct (Hm et x ts1 Hwx H1) as (x' & Hrx & Hwx' & Hux & Hmx).
+      destruct (Hi et l ts2 Hwl H2) as (l' & Hf2 & Hus & Hua & Hml).
+      destruct (marshal_starts A f et x ts1 H1) as (tk & tg & r1 & Hts1 & Hvs).
+      exists (x' :: l'). split; [constructor; auto|]. split; [|split].
+      + intros acc rest. eapply uconv_S.
+        * intros f'. rewrite <- app_assoc. rewrite Hts1. cbn [app].
+          rewrite (unmarshal_slice_val E A f' et acc tk tg _ Hvs). rewrite app_comm_cons, <- Hts1. reflexivity.
+        * apply (uconv_bind _ (fun f' x r => unmarshal_slice E A f' et (x :: acc) r) x' (ts2 ++ rest)); [apply Hux|].
+          specialize (Hus (x' :: acc) rest). cbn [rev] in Hus. rewrite <- app_assoc in Hus. exact Hus.
+      + intros n acc rest Hl. cbn [length] in Hl. eapply uconv_S.
+        * intros f'. rewrite <- app_assoc. rewrite Hts1. cbn [app].
+          rewrite (unmarshal_array_val E A f' n et acc tk tg _ Hvs) by lia.
+          rewrite app_comm_cons, <- Hts1. reflexivity.
+        * apply (uconv_bind _ (fun f' x r => unmarshal_array E A f' n et (x :: acc) r) x' (ts2 ++ rest)); [apply Hux|].
+          specialize (Hua n (x' :: acc) rest). cbn [rev length] in Hua. rewrite <- app_assoc in Hua.
+          cbn [length]. replace (length acc + S (length l))%nat with (S (length acc) + length l)%nat by lia.
+          apply Hua. lia.
+      + intros Hrm Hrv. cbn [forallb] in Hrv. apply andb_true_iff in Hrv. destruct Hrv as [Hrx' Hrl].
+        rewrite marshal_items_S, (Hmx Hrm Hrx'). cbn [mseq]. rewrite (Hml Hrm Hrl). reflexivity.
+  Qed.
+
+  (* ---- map entries (keys already stringified and sorted) ---- *)
+  Lemma step_entries f : P_marshal f -> P_entries f -> P_entries (S f).
+  Proof.
+    intros Hm He vt es ts Hw H. rewrite marshal_entries_S in H. destruct es as [|[k x] es].
+    - inversion H; subst ts. exists []. split; [constructor|]. split.
+      + intros destr kf acc rest _ _ _ _. eapply uconv_S; [|apply uconv_const]. intros f'.
+        rewrite unmarshal_map_entries_S. cbn [app map]. rewrite app_nil_r. reflexivity.
+      + intros _ _. rewrite marshal_entries_S. reflexivity.
+    - apply mprepend_ok in H. destruct H as (ts0 & H & Hts). subst ts.
+      apply mseq_ok in H. destruct H as (ts1 & H1 & H). apply mprepend_ok in H. destruct H as (ts2 & H2 & Hts).
+      subst ts0. inversion Hw as [|? ? Hwx Hwl]; subst. cbn [snd] in Hwx.
+      destruct (Hm vt x ts1 Hwx H1) as (x' & Hrx & Hwx' & Hux & Hmx).
+      destruct (He vt es ts2 Hwl H2) as (es' & Hf2 & Hue & Hme).
+      exists ((k, x') :: es'). split; [constructor; auto|]. split.
+      + intros destr kf acc rest Hd Hnd Hacc Hinj. eapply uconv_S.
+        * intros f'. cbn [app]. rewrite unmarshal_map_entries_S.
+          pose proof (Hd (k, x) (or_introl eq_refl)) as Hdk. cbn [fst] in Hdk. rewrite Hdk.
+          rewrite (existsb_false (fun p => gval_key_eqb (fst p) (kf k)) acc)
+            by (intros q Hq; apply (Hacc (k, x) q (or_introl eq_refl) Hq)).
+          rewrite <- app_assoc. reflexivity.
+        * apply (uconv_bind _ (fun f' x r' => unmarshal_map_entries E A f' destr vt (acc ++ [(kf k, x)]) r') x' (ts2 ++ rest));
+            [apply Hux|].
+          cbn [map fst snd]. inversion Hnd as [|? ? Hnk Hnd']; subst.
+          replace (acc ++ (kf k, x') :: map (fun p => (kf (fst p), snd p)) es')
+            with ((acc ++ [(kf k, x')]) ++ map (fun p => (kf (fst p), snd p)) es')
+            by (rewrite <- app_assoc; reflexivity).
+          apply Hue.
+          -- intros p Hp. apply Hd. right. exact Hp.
+          -- exact Hnd'.
+          -- intros p q Hp Hq. apply in_app_or in Hq. destruct Hq as [Hq | [<- | []]].
+             ++ apply (Hacc p q (or_intror Hp) Hq).
+             ++ cbn [fst]. apply (Hinj p (k, x) (or_intror Hp) (or_introl eq_refl)).
+                intros Hc. apply Hnk. cbn [fst] in Hc. rewrite <- Hc. apply in_map. exact Hp.
+          -- intros p q Hp Hq. apply Hinj; right; assumption.
+      + intros Hrm Hrv. cbn [forallb snd] in Hrv. apply andb_true_iff in Hrv. destruct Hrv as [Hrx' Hrl].
+        rewrite marshal_entries_S, (Hmx Hrm Hrx'). cbn [mseq]. rewrite (Hme Hrm Hrl). reflexivity.
+  Qed.
+
+  Lemma wtb_slice t et o : strip_named t = GSlice et ->
+    wtb E A t (VSlice o) = match o with None => true | Some l => forallb (wtb E A et) l end.
+  Proof. intros Hs. cbn [wtb]. rewrite Hs. destruct o; reflexivity. Qed.
+
+  Lemma wtb_arr t n et l : strip_named t = GArr n et ->
+    wtb E A t (GVArr l) = Nat.eqb (length l) n && forallb (wtb E A et) l.
+  Proof. intros Hs. cbn [wtb]. rewrite Hs. reflexivity. Qed.
+
+  Lemma wtb_map t kt vt o : strip_named t = GMap kt vt ->
+    wtb E A t (GVMap o) =
+    match o with
+    | None => true
+    | Some es => is_string_kind kt && forallb (fun kv => wtb E A kt (fst kv) && wtb E A vt (snd kv)) es &&
+                 keys_distinct (map fst es)
+    end.
+  Proof. intros Hs. cbn [wtb]. rewrite Hs. destruct o; reflexivity. Qed.
+
+  Lemma domb_slice t et l : strip_named t = GSlice et ->
+    domb E A t (VSlice (Some l)) = forallb (domb E A et) l.
+  Proof. intros Hs. cbn [domb]. rewrite Hs. reflexivity. Qed.
+
+  Lemma domb_arr t n et l : strip_named t = GArr n et ->
+    domb E A t (GVArr l) = forallb (domb E A et) l.
+  Proof. intros Hs. cbn [domb]. rewrite Hs. reflexivity. Qed.
+
+  Lemma domb_map t kt vt es : strip_named t = GMap kt vt ->
+    domb E A t (GVMap (Some es)) = forallb (fun kv => domb E A vt (snd kv)) es.
+  Proof. intros Hs. cbn [domb]. rewrite Hs. reflexivity. Qed.
+
+  Lemma okv_list et (l : list gval) :
+    forallb (wtb E A et) l = true -> forallb (domb E A et) l = true -> Forall (okv et) l.
+  Proof.
+    intros Hw Hd. apply Forall_forall. intros x Hx. rewrite forallb_forall in Hw, Hd. split; [apply Hw | apply Hd]; exact Hx.
+  Qed.
+
+  Lemma Forall2_wt_r et (l l' : list gval) :
+    Forall2 (fun x x' => req E A et x x' /\ wt E A et x') l l' -> forallb (wtb E A et) l' = true.
+  Proof.
+    intros H. apply forallb_Forall. induction H as [|x x' l l' [_ Hx] _ IH]; constructor; assumption.
+  Qed.
+
+  (* ---- untyped slots ---- *)
+  Definition is_any (t : gtype) : Prop := strip_named t = GAny \/ exists i, strip_named t = GIface i.
+
+  Lemma wtb_any t o : is_any t ->
+    wtb E A t (VAny o) = match o with None => true | Some (dt, dv) => wtb E A dt dv end.
+  Proof. intros [Hs | [i Hs]]; cbn [wtb]; rewrite Hs; destruct o as [[dt dv]|]; reflexivity. Qed.
+
+  Lemma domb_any t dt dv : is_any t ->
+    domb E A t (VAny (Some (dt, dv))) = domb E A dt dv && (nullish dv || any_ok A dt).
+  Proof. intros [Hs | [i Hs]]; cbn [domb]; rewrite Hs; reflexivity. Qed.
+
+  Lemma marshal_kind_any f t o : is_any t ->
+    marshal_kind A (S f) (strip_named t) (VAny o) =
+    match o with None => MOk [Tok Null None] | Some (dt, dv) => marshal A f dt dv end.
+  Proof. intros [Hs | [i Hs]]; rewrite marshal_kind_S, Hs; destruct o as [[dt dv]|]; reflexivity. Qed.
+
+  Lemma unmarshal_kind_any f t cur ts : is_any t ->
+    unmarshal_kind E A (S f) (strip_named t) cur ts = unmarshal_any E A f ts.
+  Proof. intros [Hs | [i Hs]]; rewrite unmarshal_kind_S, Hs; reflexivity. Qed.
+
+  (* a value of a non-pointer, non-struct type: marshal goes to marshal_kind *)
+  Lemma marshal_plain f t v ts :
+    (forall id, strip_named t <> GStruct id) -> (forall t', t <> GPtr t') ->
+    marshal A f t v = MOk ts ->
+    exists f3, f = S (S (S f3)) /\ marshal_kind A (S f3) (strip_named t) v = MOk ts.
+  Proof.
+    intros Hns Hnp H. destruct f as [|f1]; [discriminate|].
+    rewrite marshal_S, (peel_nonptr t Hnp) in H. cbn [deref] in H.
+    destruct f1 as [|f2]; [discriminate|]. rewrite marshal_bare_S in H.
+    assert (Hk : marshal_kind A f2 (strip_named t) v = MOk ts).
+    { destruct (is_unnamed_prim t) eqn:Hup.
+      - destruct (unnamed_prim_primk t Hup) as [_ Hst]. rewrite Hst. exact H.
+      - rewrite (atlas_get_none_kind E A t Hwf Hns) in H. exact H. }
+    destruct f2 as [|f3]; [discriminate|]. exists f3. auto.
+  Qed.
+
+  Lemma unmarshal_plain f t cur ts :
+    (forall id, strip_named t <> GStruct id) -> (forall t', t <> GPtr t') -> is_unnamed_prim t = false ->
+    unmarshal E A (S (S f)) t cur ts = unmarshal_kind E A f (strip_named t) cur ts.
+  Proof.
+    intros Hns Hnp Hup. rewrite unmarshal_S, (peel_nonptr t Hnp), unmarshal_bare_S, Hup.
+    rewrite (atlas_get_none_kind E A t Hwf Hns). reflexivity.
+  Qed.
+
+  Lemma uconv_plain t cur ts r :
+    (forall id, strip_named t <> GStruct id) -> (forall t', t <> GPtr t') -> is_unnamed_prim t = false ->
+    uconv (fun f' => unmarshal E A f' t cur ts) r ->
+    uconv (fun f' => unmarshal_kind E A f' (strip_named t) cur ts) r.
+  Proof.
+    intros Hns Hnp Hup H.
+    apply (uconv_pred (fun f' => unmarshal E A (S f') t cur ts)); [intros f'; apply unmarshal_plain; assumption|].
+    apply (uconv_pred (fun f' => unmarshal E A f' t cur ts)); [reflexivity | exact H].
+  Qed.
+
+  Lemma step_any f : P_marshal f ->
+    forall dt dv ts, okv dt dv -> (nullish dv || any_ok A dt) = true -> marshal A f dt dv = MOk ts ->
+    exists w, req E A GAny (VAny (Some (dt, dv))) w /\ wt E A GAny w /\
+      (forall rest, uconv (fun f' => unmarshal_any E A f' (ts ++ rest)) (UOk w rest)) /\
+      (rmh -> rmv (VAny (Some (dt, dv))) = true -> marshal_kind A (S f) GAny w = MOk ts).
+  Proof.
+    intros Hm dt dv ts Hok Hany H. pose proof Hok as [Hw Hdom].
+    destruct (Hm dt dv ts Hok H) as (dv' & Hr & Hw' & Hu & Hmv).
+    destruct (nullish dv) eqn:Hnl.
+    { (* marshals as Null: comes back as a nil interface *)
+      rewrite (marshal_nullish E A Hwf f dt dv ts Hw Hnl H).
+      exists (VAny None). split; [apply req_any_null; exact Hnl|]. split; [reflexivity|]. split.
+      - intros rest. eapply uconv_S; [|apply uconv_const]. intros f'. rewrite unmarshal_any_S. reflexivity.
+      - intros _ _. rewrite marshal_kind_S. reflexivity. }
+    cbn [orb] in Hany.
+    (* same dynamic type, value related by the typed round trip *)
+    assert (Hsame : (forall rest, uconv (fun f' => unmarshal_any E A f' (ts ++ rest)) (UOk (VAny (Some (dt, dv'))) rest)) ->
+      exists w, req E A GAny (VAny (Some (dt, dv))) w /\ wt E A GAny w /\
+      (forall rest, uconv (fun f' => unmarshal_any E A f' (ts ++ rest)) (UOk w rest)) /\
+      (rmh -> rmv (VAny (Some (dt, dv))) = true -> marshal_kind A (S f) GAny w = MOk ts)).
+    { intros Hua. exists (VAny (Some (dt, dv'))). split; [apply req_any; exact Hr|]. split; [exact Hw'|].
+      split; [exact Hua|]. intros Hrm Hrv. cbn [rmv] in Hrv. apply andb_true_iff in Hrv.
+      rewrite marshal_kind_S. apply Hmv; [exact Hrm | apply Hrv]. }
+    destruct (atlas_get A dt) as [e|] eqn:Hg.
+    - (* a tagged atlas type: reconstructed through its tag *)
+      destruct (atlas_get_struct E A dt e Hwf Hg) as [id Hs].
+      assert (Htag : exists tg e', ae_tag e = Some tg /\ atlas_by_tag A tg = Some e' /\ ae_type e' = dt).
+      { destruct dt; try discriminate Hs; cbn [any_ok] in Hany; rewrite Hg in Hany;
+          (destruct (ae_tag e) as [tg|]; [|discriminate]);
+          (destruct (atlas_by_tag A tg) as [e'|] eqn:Hbt; [|discriminate]);
+          apply gtype_eqb_eq in Hany; eauto. }
+      destruct Htag as (tg & e' & Htg & Hbt & Hty).
+      assert (Hnp : forall t', dt <> GPtr t') by (intros t' Hc; rewrite Hc in Hs; cbn in Hs; discriminate Hs).
+      assert (Hup : is_unnamed_prim dt = false) by (destruct dt; try reflexivity; cbn in Hs; discriminate Hs).
+      (* the first token carries the tag *)
+      assert (Hts : exists tk r, ts = Tok tk (Some tg) :: r).
+      { destruct f as [|f1]; [discriminate|]. rewrite marshal_S, (peel_nonptr dt Hnp) in H. cbn [deref] in H.
+        destruct f1 as [|f2]; [discriminate|]. rewrite marshal_bare_S, Hup, Hg in H.
+        destruct (atlas_wf_entry E A dt e Hwf Hg) as [He _].
+        destruct (entry_wf_struct E e He) as (fields & id' & Hkd & _).
+        destruct f2 as [|f3]; [discriminate|]. rewrite marshal_entry_S, Hkd in H. cbv zeta in H.
+        apply mprepend_ok in H. destruct H as (ts' & _ & Hts). rewrite Htg in Hts. cbn in Hts. eauto. }
+      destruct Hts as (tk & r & Hts).
+      apply Hsame. intros rest. eapply uconv_S.
+      + intros f'. rewrite Hts. cbn [app]. rewrite unmarshal_any_S. cbv iota beta. rewrite Hbt. cbv zeta. rewrite Hty.
+        rewrite app_comm_cons, <- Hts. reflexivity.
+      + apply (uconv_bind _ (fun _ x r' => UOk (VAny (Some (dt, x))) r') dv' rest); [|apply uconv_const].
+        eapply uconv_pred; [|apply (Hu rest)]. intros f'. cbv beta. rewrite unmarshal_S, (peel_nonptr dt Hnp). reflexivity.
+    - (* scalars, []interface{}, map[string]interface{} *)
+      destruct dt; cbn [any_ok] in Hany; rewrite ?Hg in Hany; try discriminate Hany.
+      + (* bool *)
+        destruct (marshal_plain f GBool dv ts) as (f3 & -> & Hk); [discriminate | discriminate | exact H |].
+        cbn [strip_named] in Hk. rewrite marshal_kind_S in Hk. destruct dv; try discriminate Hk. inversion Hk; subst ts.
+        atom_same Hr.
+        apply Hsame. intros rest. eapply uconv_S; [|apply uconv_const]. intros f'. rewrite unmarshal_any_S. reflexivity.
+      + (* integers: the slot chooses int or uint64 *)
+        destruct (marshal_plain f (GNum k) dv ts) as (f3 & -> & Hk); [discriminate | discriminate | exact H |].
+        cbn [strip_named] in Hk. rewrite marshal_kind_S in Hk. destruct dv; try discriminate Hk. inversion Hk; subst ts.
+        exists (VAny (Some (any_num_type k z, VNum z))). split; [apply req_any_num|]. split; [|split].
+        * unfold wt in Hw. cbn [wtb strip_named] in Hw. pose proof (in_kind_any k z Hw) as Hik.
+          unfold wt. cbn [wtb strip_named]. destruct (any_num_type k z); try contradiction. exact Hik.
+        * intros rest. eapply uconv_S; [|apply uconv_const]. intros f'. rewrite unmarshal_any_S.
+          unfold any_num_type. destruct (ik_signed k); cbn [app orb uany_scalar]; [reflexivity|].
+          destruct (z <=? max_i64); reflexivity.
+        * intros _ Hrv. cbn [rmv nullish orb] in Hrv. apply andb_true_iff in Hrv. destruct Hrv as [Hnat _].
+          rewrite marshal_kind_S.
+          assert (Hq : any_num_type k z = GNum k).
+          { unfold any_num_type. destruct k; try discriminate Hnat; cbn [ik_signed orb]; [reflexivity|].
+            cbn [native_dt] in Hnat. apply Z.ltb_lt in Hnat. destruct (z <=? max_i64) eqn:Hz; [lia | reflexivity]. }
+          rewrite Hq. exact H.
+      + (* float32 comes back as float64 *)
+        destruct (marshal_plain f GF32 dv ts) as (f3 & -> & Hk); [discriminate | discriminate | exact H |].
+        cbn [strip_named] in Hk. rewrite marshal_kind_S in Hk. destruct dv; try discriminate Hk. inversion Hk; subst ts.
+        exists (VAny (Some (GF64, GVFlt bits))). split; [apply req_any_f32|]. split; [reflexivity|]. split.
+        * intros rest. eapply uconv_S; [|apply uconv_const]. intros f'. rewrite unmarshal_any_S. reflexivity.
+        * intros _ Hrv. discriminate Hrv.
+      + (* float64 *)
+        destruct (marshal_plain f GF64 dv ts) as (f3 & -> & Hk); [discriminate | discriminate | exact H |].
+        cbn [strip_named] in Hk. rewrite marshal_kind_S in Hk. destruct dv; try discriminate Hk. inversion Hk; subst ts.
+        atom_same Hr.
+        apply Hsame. intros rest. eapply uconv_S; [|apply uconv_const]. intros f'. rewrite unmarshal_any_S. reflexivity.
+      + (* string *)
+        destruct (marshal_plain f GStr dv ts) as (f3 & -> & Hk); [discriminate | discriminate | exact H |].
+        cbn [strip_named] in Hk. rewrite marshal_kind_S in Hk. destruct dv; try discriminate Hk. inversion Hk; subst ts.
+        atom_same Hr.
+        apply Hsame. intros rest. eapply uconv_S; [|apply uconv_const]. intros f'. rewrite unmarshal_any_S. reflexivity.
+      + (* []byte, not nil *)
+        destruct (marshal_plain f GBytes dv ts) as (f3 & -> & Hk); [discriminate | discriminate | exact H |].
+        cbn [strip_named] in Hk. rewrite marshal_kind_S in Hk. destruct dv; try discriminate Hk.
+        destruct o as [s|]; [|discriminate Hnl]. inversion Hk; subst ts.
+        atom_same Hr.
+        apply Hsame. intros rest. eapply uconv_S; [|apply uconv_const]. intros f'. rewrite unmarshal_any_S. reflexivity.
+      + (* [n]byte comes back as []byte *)
+        destruct (marshal_plain f (GByteArr n) dv ts) as (f3 & -> & Hk); [discriminate | discriminate | exact H |].
+        cbn [strip_named] in Hk. rewrite marshal_kind_S in Hk. destruct dv; try discriminate Hk. inversion Hk; subst ts.
+        exists (VAny (Some (GBytes, VBytes (Some s)))). split; [apply req_any_bytearr|]. split; [|split].
+        * unfold wt in Hw. cbn [wtb strip_named] in Hw. apply andb_true_iff in Hw. unfold wt. cbn [wtb strip_named]. apply Hw.
+        * intros rest. eapply uconv_S; [|apply uconv_const]. intros f'. rewrite unmarshal_any_S. reflexivity.
+        * intros _ Hrv. discriminate Hrv.
+      + (* []interface{} *)
+        destruct dt; cbn [any_ok] in Hany; rewrite ?Hg in Hany; try discriminate Hany.
+        destruct (marshal_plain f (GSlice GAny) dv ts) as (f3 & Hf & Hk); [discriminate | discriminate | exact H |].
+        cbn [strip_named] in Hk. rewrite marshal_kind_S in Hk. destruct dv; try discriminate Hk.
+        destruct o as [l|]; [|discriminate Hnl].
+        apply mprepend_ok in Hk. destruct Hk as (ts' & _ & Hts). subst ts.
+        apply Hsame. intros rest. eapply uconv_S.
+        * intros f'. cbn [app]. rewrite unmarshal_any_S. reflexivity.
+        * apply (uconv_bind _ (fun _ x r' => UOk (VAny (Some (GSlice GAny, x))) r') dv' rest); [|apply uconv_const].
+          pose proof (uconv_plain (GSlice GAny) _ _ _ ltac:(discriminate) ltac:(discriminate) eq_refl (Hu rest)) as Hu1.
+          cbn [strip_named app] in Hu1.
+          eapply uconv_pred; [|exact Hu1]. intros f'. cbv beta. rewrite unmarshal_kind_S. reflexivity.
+      + (* map[string]interface{} *)
+        destruct dt1; cbn [any_ok] in Hany; rewrite ?Hg in Hany; try discriminate Hany.
+        destruct dt2; cbn [any_ok] in Hany; rewrite ?Hg in Hany; try discriminate Hany.
+        destruct (marshal_plain f (GMap GStr GAny) dv ts) as (f3 & Hf & Hk); [discriminate | discriminate | exact H |].
+        cbn [strip_named] in Hk. rewrite marshal_kind_S in Hk. destruct dv; try discriminate Hk.
+        destruct o as [es|]; [|discriminate Hnl].
+        destruct f3 as [|f4]; [discriminate|]. rewrite marshal_map_S in Hk.
+        destruct (map_stringer A GStr); [|discriminate]. cbv zeta in Hk. destruct (existsb _ _); [discriminate|].
+        apply mprepend_ok in Hk. destruct Hk as (ts' & _ & Hts). subst ts.
+        apply Hsame. intros rest. eapply uconv_S.
+        * intros f'. cbn [app]. rewrite unmarshal_any_S.
+          rewrite (unmarshal_map_cur E A f' GStr GAny (GVMap (Some [])) (zero_of E (GMap GStr GAny)))
+            by (rewrite zero_of_map; reflexivity).
+          reflexivity.
+        * apply (uconv_bind _ (fun _ x r' => UOk (VAny (Some (GMap GStr GAny, x))) r') dv' rest); [|apply uconv_const].
+          pose proof (uconv_plain (GMap GStr GAny) _ _ _ ltac:(discriminate) ltac:(discriminate) eq_refl (Hu rest)) as Hu1.
+          cbn [strip_named app] in Hu1.
+          eapply uconv_pred; [|exact Hu1]. intros f'. cbv beta. rewrite unmarshal_kind_S. reflexivity.
+  Qed.
+
+  (* ---- default behaviour by kind ---- *)
+  Lemma step_kind f : P_marshal f -> P_items f -> P_map f -> P_kind (S f).
+  Proof.
+    intros Hm Hi Hmap t v ts Hok H. pose proof Hok as [Hw Hdom].
+    destruct (is_primk (strip_named t)) eqn:Hpk.
+    - (* primitives *)
+      assert (Hws : wt E A (strip_named t) v) by (apply wt_strip; exact Hw).
+      destruct (prim_rt E A f (strip_named t) v ts VBadV [] Hpk Hws H) as (tok & Hts & _ & Hat).
+      subst ts. exists v. split; [apply req_atom; exact Hat|]. split; [exact Hw|]. split; [|intros _ _; exact H].
+      intros cur rest _.
+      destruct (prim_rt E A f (strip_named t) v [tok] cur rest Hpk Hws H) as (tok' & Hts & Hu & _).
+      inversion Hts; subst tok'.
+      eapply uconv_S; [|apply uconv_const]. intros f'. rewrite (unmarshal_kind_prim E A f' _ cur _ Hpk). exact Hu.
+    - assert (Hanyc : is_any t -> forall o, v = VAny o ->
+        exists v', req E A t v v' /\ wt E A t v' /\
+          (forall cur rest, mblank cur = true ->
+             uconv (fun f' => unmarshal_kind E A f' (strip_named t) cur (ts ++ rest)) (UOk v' rest)) /\
+          (rmh -> rmv v = true -> marshal_kind A (S f) (strip_named t) v' = MOk ts)).
+      { intros Ha o Hv. subst v. rewrite (marshal_kind_any f t o Ha) in H.
+        destruct o as [[dt dv]|].
+        - unfold wt in Hw. rewrite (wtb_any t _ Ha) in Hw. rewrite (domb_any t dt dv Ha) in Hdom.
+          apply andb_true_iff in Hdom. destruct Hdom as [Hdd Hany].
+          destruct (step_any f Hm dt dv ts (conj Hw Hdd) Hany H) as (w & Hr & Hww & Hu & Hmw).
+          assert (Hwo : exists o', w = VAny o').
+          { inversion Hr; subst; eauto. }
+          destruct Hwo as [o' ->].
+          exists (VAny o'). split; [|split; [|split]].
+          + inversion Hr; subst; try discriminate; constructor; assumption.
+          + unfold wt. rewrite (wtb_any t _ Ha). exact Hww.
+          + intros cur rest _. eapply uconv_S; [|apply (Hu rest)]. intros f'. apply (unmarshal_kind_any f' t cur _ Ha).
+          + intros Hrm Hrv. rewrite (marshal_kind_any f t o' Ha).
+            specialize (Hmw Hrm Hrv). rewrite marshal_kind_S in Hmw. exact Hmw.
+        - inversion H; subst ts. exists (VAny None). split; [apply req_atom; reflexivity|]. split; [exact Hw|].
+          split; [|intros _ _; apply (marshal_kind_any f t None Ha)].
+          intros cur rest _. eapply uconv_S; [intros f'; apply (unmarshal_kind_any f' t cur _ Ha)|].
+          eapply uconv_S; [|apply uconv_const]. intros f'. rewrite unmarshal_any_S. reflexivity. }
+      rewrite marshal_kind_S in H.
+      destruct (strip_named t) as [| | | | | | |et|n et|kt vt| | | | | |] eqn:Hs; try discriminate Hpk;
+        destruct v; try discriminate H.
+      + (* slice *)
+        destruct o as [l|].
+        * apply mprepend_ok in H. destruct H as (ts' & H & Hts). subst ts.
+          assert (Hwl : Forall (okv et) l).
+          { unfold wt in Hw. rewrite (wtb_slice t et _ Hs) in Hw. rewrite (domb_slice t et _ Hs) in Hdom.
+            apply okv_list; assumption. }
+          destruct (Hi et l ts' Hwl H) as (l' & Hf2 & Hus & _ & Hml).
+          exists (VSlice (Some l')). split; [|split; [|split]].
+          -- eapply req_slice; [exact Hs|]. eapply Forall2_imp; [|exact Hf2]. intros x y [Hxy _]. exact Hxy.
+          -- unfold wt. rewrite (wtb_slice t et _ Hs). eapply Forall2_wt_r. exact Hf2.
+          -- intros cur rest _. eapply uconv_S; [|apply (Hus [] rest)].
+             intros f'. rewrite unmarshal_kind_S. reflexivity.
+          -- intros Hrm Hrv. rewrite marshal_kind_S, (Hml Hrm Hrv). rewrite <- (Forall2_length' _ _ _ Hf2). reflexivity.
+        * inversion H; subst ts. exists (VSlice None). split; [apply req_atom; reflexivity|]. split; [exact Hw|].
+          split; [|intros _ _; reflexivity].
+          intros cur rest _. eapply uconv_S; [|apply uconv_const]. intros f'. rewrite unmarshal_kind_S. reflexivity.
+      + (* array *)
+        apply mprepend_ok in H. destruct H as (ts' & H & Hts). subst ts.
+        unfold wt in Hw. rewrite (wtb_arr t n et _ Hs) in Hw. apply andb_true_iff in Hw. destruct Hw as [Hlen Hwl].
+        apply Nat.eqb_eq in Hlen. rewrite (domb_arr t n et _ Hs) in Hdom.
+        destruct (Hi et l ts' (okv_list et l Hwl Hdom) H) as (l' & Hf2 & _ & Hua & Hml).
+        exists (GVArr l'). split; [|split; [|split]].
+        -- eapply req_arr; [exact Hs|]. eapply Forall2_imp; [|exact Hf2]. intros x y [Hxy _]. exact Hxy.
+        -- unfold wt. rewrite (wtb_arr t n et _ Hs). rewrite <- (Forall2_length' _ _ _ Hf2), Hlen, Nat.eqb_refl.
+           eapply Forall2_wt_r. exact Hf2.
+        -- intros cur rest _. eapply uconv_S.
+           ++ intros f'. rewrite unmarshal_kind_S. reflexivity.
+           ++ specialize (Hua n [] rest). cbn [rev length app] in Hua.
+              replace (n - (0 + length l))%nat with O in Hua by lia.
+              cbn [repeat] in Hua. rewrite app_nil_r in Hua. apply Hua. lia.
+        -- intros Hrm Hrv. rewrite marshal_kind_S, (Hml Hrm Hrv). rewrite <- (Forall2_length' _ _ _ Hf2). reflexivity.
+      + (* map *)
+        destruct (Hmap (a_mode A) t kt vt o ts Hs Hok H) as (o' & Hr & Hw' & Hu & Hmm).
+        exists (GVMap o'). split; [exact Hr|]. split; [exact Hw'|]. split.
+        -- intros cur rest Hb. eapply uconv_S; [|apply (Hu cur rest Hb)].
+           intros f'. rewrite unmarshal_kind_S. reflexivity.
+        -- intros Hrm Hrv. rewrite marshal_kind_S. apply Hmm; assumption.
+      + (* any *)
+        destruct (Hanyc (or_introl Hs) o eq_refl) as (v' & Hx). exists v'. exact Hx.
+      + (* interface *)
+        destruct (Hanyc (or_intror (ex_intro _ id Hs)) o eq_refl) as (v' & Hx). exists v'. exact Hx.
+  Qed.
+
+  Lemma sk_strs (es'' : list (bytes * gval)) :
+    sk (map (fun p => (GVStr (fst p), snd p)) es'') = es''.
+  Proof.
+    unfold sk. rewrite map_map. cbn. induction es'' as [|[k x] r IH]; [reflexivity|]. cbn. rewrite IH. reflexivity.
+  Qed.
+
+  Lemma keyed_strs_ok (es'' : list (bytes * gval)) :
+    existsb (fun p : option bytes * gval => match fst p with None => true | Some _ => false end)
+            (map_keyed str_stringer (map (fun p => (GVStr (fst p), snd p)) es'')) = false.
+  Proof.
+    apply existsb_false. intros p Hin. unfold map_keyed in Hin. rewrite map_map in Hin.
+    apply in_map_iff in Hin. destruct Hin as (q & <- & _). reflexivity.
+  Qed.
+
+  (* ---- maps ---- *)
+  Lemma step_map f : P_entries f -> P_map (S f).
+  Proof.
+    intros He mode t kt vt o ts Hs [Hw Hdom] H. rewrite marshal_map_S in H.
+    destruct (map_stringer A kt) as [str|] eqn:Hstr; [|discriminate].
+    destruct (stringer_strings E A kt str Hwf Hstr) as (Hk & -> & Hdes).
+    cbv zeta in H. destruct (existsb _ _) eqn:Hex; [discriminate|].
+    destruct o as [es|].
+    - apply mprepend_ok in H. destruct H as (ts' & H & Hts). subst ts.
+      rewrite sorted_str_eq in H.
+      unfold wt in Hw. rewrite (wtb_map t kt vt _ Hs) in Hw.
+      apply andb_true_iff in Hw. destruct Hw as [Hw Hkd]. apply andb_true_iff in Hw. destruct Hw as [_ Hwe].
+      rewrite forallb_forall in Hwe.
+      rewrite (domb_map t kt vt _ Hs) in Hdom. rewrite forallb_forall in Hdom.
+      assert (Hwk : forall kv, In kv es -> wt E A kt (fst kv)).
+      { intros kv Hin. specialize (Hwe kv Hin). apply andb_true_iff in Hwe. apply Hwe. }
+      assert (Hwv : forall kv, In kv es -> okv vt (snd kv)).
+      { intros kv Hin. specialize (Hwe kv Hin). apply andb_true_iff in Hwe. split; [apply Hwe | apply Hdom; exact Hin]. }
+      set (sorted := sort_keys (key_ltb mode) (sk es)) in *.
+      assert (Hperm : Permutation sorted (sk es)) by apply sort_keys_perm.
+      assert (Hws : Forall (fun p => okv vt (snd p)) sorted).
+      { apply Forall_forall. intros p Hp. apply (Permutation_in _ Hperm) in Hp.
+        unfold sk in Hp. apply in_map_iff in Hp. destruct Hp as (kv & <- & Hkv). cbn. apply Hwv. exact Hkv. }
+      destruct (He vt sorted ts' Hws H) as (es'' & Hf2 & Hue & Hme).
+      assert (Hkeys : map fst es'' = map fst sorted).
+      { clear -Hf2. induction Hf2 as [|p p' l l' (Hq & _) _ IH]; [reflexivity|]. cbn. rewrite IH, Hq. reflexivity. }
+      assert (Hnd : NoDup (map fst sorted)).
+      { eapply Permutation_NoDup; [apply Permutation_sym; apply Permutation_map; exact Hperm|].
+        eapply keys_distinct_NoDup; eassumption. }
+      assert (Hlen : length es'' = length es).
+      { rewrite <- (Forall2_length' _ _ _ Hf2). unfold sorted. rewrite sort_keys_length. unfold sk. apply map_length. }
+      set (es' := map (fun p : bytes * gval => (GVStr (fst p), snd p)) es'').
+      exists (Some es'). split; [|split; [|split]].
+      + eapply req_map; [exact Hs | unfold es'; rewrite map_length; symmetry; exact Hlen |].
+        intros k x Hin.
+        destruct (wt_string_kind E A kt k Hk (Hwk (k, x) Hin)) as [s ->].
+        assert (Hin' : In (s, x) sorted).
+        { apply (Permutation_in _ (Permutation_sym Hperm)). unfold sk. apply in_map_iff. exists (GVStr s, x). auto. }
+        destruct (Forall2_In_l _ _ _ _ Hf2 Hin') as ([s' x'] & Hin'' & Hq & Hr & _). cbn in Hq, Hr. subst s'.
+        exists x'. split; [|exact Hr]. unfold es'. apply in_map_iff. exists (s, x'). auto.
+      + unfold wt. rewrite (wtb_map t kt vt _ Hs), Hk. cbn [andb]. apply andb_true_iff. split.
+        * apply forallb_forall. intros kv Hin. unfold es' in Hin. apply in_map_iff in Hin.
+          destruct Hin as ([s x'] & <- & Hin). cbn [fst snd].
+          destruct (Forall2_In_r _ _ _ _ Hf2 Hin) as ([s0 x] & Hin0 & Hq & _ & Hwx'). cbn in Hq, Hwx'. subst s0.
+          rewrite Hwx', andb_true_r.
+          apply (Permutation_in _ Hperm) in Hin0. unfold sk in Hin0. apply in_map_iff in Hin0.
+          destruct Hin0 as ([k0 x0] & Hq0 & Hin0). cbn in Hq0. inversion Hq0; subst.
+          destruct (wt_string_kind E A kt k0 Hk (Hwk (k0, x) Hin0)) as [s' ->]. cbn.
+          apply (Hwk (GVStr s', x) Hin0).
+        * unfold es'. rewrite map_map. cbn [fst].
+          rewrite <- (map_map fst GVStr). apply keys_distinct_strs. rewrite Hkeys. exact Hnd.
+      + intros cur rest Hb. eapply uconv_S.
+        * intros f'. rewrite unmarshal_map_S, Hdes. cbn [app]. cbv zeta.
+          replace (match cur with GVMap (Some es0) => es0 | _ => [] end) with (@nil (gval * gval))
+            by (destruct cur; try reflexivity; destruct o; [discriminate | reflexivity]).
+          reflexivity.
+        * apply (Hue (fun s => Some (GVStr s)) GVStr [] rest).
+          -- intros p _. reflexivity.
+          -- exact Hnd.
+          -- intros p q _ [].
+          -- intros p q _ _ Hne. cbn. destruct (bytes_eqb (fst q) (fst p)) eqn:Hq; [|reflexivity].
+             apply bytes_eqb_eq in Hq. congruence.
+      + intros Hrm Hrv. rewrite marshal_map_S, Hstr. cbv zeta.
+        unfold es'. rewrite keyed_strs_ok. rewrite sorted_str_eq, sk_strs.
+        rewrite (sort_keys_id (key_ltb mode) es'').
+        * rewrite map_length, Hlen, (Hme Hrm); [reflexivity|].
+          cbn [rmv] in Hrv. rewrite forallb_forall in Hrv. apply forallb_forall. intros p Hp.
+          apply (Permutation_in _ Hperm) in Hp. unfold sk in Hp. apply in_map_iff in Hp.
+          destruct Hp as (kv & <- & Hkv). cbn. apply Hrv. exact Hkv.
+        * eapply ksorted_keys; [symmetry; exact Hkeys|]. apply sort_keys_sorted. apply key_ltb_asym.
+    - inversion H; subst ts. exists None. split; [apply req_atom; reflexivity|]. split; [exact Hw|]. split.
+      + intros cur rest _. eapply uconv_S; [|apply uconv_const]. intros f'.
+        rewrite unmarshal_map_S, Hdes. reflexivity.
+      + intros _ _. rewrite marshal_map_S, Hstr. reflexivity.
+  Qed.
+
+  (* ---- the struct-field loop ---- *)
+  Lemma step_fields f : P_marshal f -> P_fields f -> P_fields (S f).
+  Proof.
+    intros Hm Hf st fields v l ts Hokv Hfw Hnd Hl Hpf H cur count Hwc Hbl. pose proof Hokv as [Hwv Hdomv].
+    rewrite marshal_fields_S in H. destruct l as [|fe l].
+    - (* no field left: MapClose *)
+      inversion H; subst ts. exists cur. split; [|split; [exact Hwc | split; [|split]]].
+      + intros rest. eapply uconv_S; [|apply uconv_const]. intros f'. rewrite unmarshal_fields_S. cbn [app length].
+        replace (count + Z.of_nat 0) with count by lia. rewrite Z.eqb_refl. cbn [negb]. rewrite andb_false_r. reflexivity.
+      + intros fe [].
+      + intros r0 ft0 _ _. auto.
+      + intros _ _. rewrite marshal_fields_S. reflexivity.
+    - destruct (Hl fe (or_introl eq_refl)) as (Hin & Hig & Htr).
+      destruct (traverse (fe_route fe) v) as [fv|] eqn:Hfv; [|contradiction Htr; reflexivity].
+      apply mprepend_ok in H. destruct H as (ts0 & H & Hts). subst ts.
+      apply mseq_ok in H. destruct H as (ts1 & H1 & H). apply mprepend_ok in H. destruct H as (ts2 & H2 & Hts). subst ts0.
+      destruct (field_facts E st fields fe Hfw Hin Hig) as (Hrk & Hnb & Hlen).
+      assert (Hwfv : okv (fe_type fe) fv).
+      { split; [exact (traverse_wt E A _ st v _ fv Hwv Hrk Hfv) | exact (traverse_dom E A _ st v _ fv Hwv Hdomv Hrk Hfv)]. }
+      destruct (Hm (fe_type fe) fv ts1 Hwfv H1) as (fv' & Hrv & Hwv' & Huv & Hmv).
+      destruct (marshal_starts A f _ _ _ H1) as (tk & tg & r1 & Hts1 & _).
+      destruct (route_get_ok E A (fe_route fe) 50 st cur (fe_type fe) Hwc Hrk Hlen) as (fcur & Hget & Hfc).
+      assert (Hfcur : fcur = zero_of E (fe_type fe)).
+      { pose proof (Hbl fe (or_introl eq_refl)) as Hb. apply blank_at_iff in Hb.
+        destruct Hb as [Hb|Hb]; destruct Hfc as [Hc|[Hc1 Hc2]]; congruence. }
+      subst fcur.
+      destruct (route_set_ok E A (fe_route fe) 50 st cur (fe_type fe) fv' Hwc Hrk Hwv' Hlen) as (cur1 & Hset & Hwc1 & Htr1).
+      cbn [map prefix_free] in Hpf. apply andb_true_iff in Hpf. destruct Hpf as [Hun Hpf]. rewrite forallb_forall in Hun.
+      assert (Hunr : forall fe', In fe' l -> unrelated (fe_route fe) (fe_route fe') = true).
+      { intros fe' Hin'. apply Hun. apply in_map. exact Hin'. }
+      assert (Hl' : forall fe', In fe' l -> In fe' fields /\ fe_ignore fe' = false /\ traverse (fe_route fe') v <> None)
+        by (intros; apply Hl; right; assumption).
+      assert (Hbl1 : forall fe', In fe' l -> blank_at E fe' cur1).
+      { intros fe' Hin'. apply blank_at_iff. destruct (Hl' fe' Hin') as (Hin2 & Hig2 & _).
+        destruct (field_facts E st fields fe' Hfw Hin2 Hig2) as (Hrk' & _ & _).
+        eapply route_set_blank; [exact Hwc | exact Hrk | exact Hrk' | rewrite unrelated_sym; apply Hunr; exact Hin' | exact Hset |].
+        apply blank_at_iff. apply Hbl. right. exact Hin'. }
+      destruct (Hf st fields v l ts2 Hokv Hfw Hnd Hl' Hpf H2 cur1 (count + 1) Hwc1 Hbl1) as (cur' & Hu & Hwc' & Hdone & Hframe & Hmf).
+      destruct (Hframe (fe_route fe) (fe_type fe) Hrk Hunr) as (Hk1 & _ & _).
+      pose proof (Hk1 fv' Htr1) as Htr'.
+      exists cur'. split; [|split; [exact Hwc' | split; [|split]]].
+      + intros rest.
+        replace (count + Z.of_nat (length (fe :: l))) with (count + 1 + Z.of_nat (length l))
+          by (cbn [length]; rewrite Nat2Z.inj_succ; unfold Z.succ; ring).
+        eapply uconv_S.
+        * intros f'. cbn [app]. rewrite unmarshal_fields_S.
+          rewrite (find_by_name fields fe Hnd Hin), Hig.
+          rewrite <- app_assoc, Hts1. cbn [app]. cbv iota. rewrite Hget.
+          rewrite app_comm_cons, <- Hts1. reflexivity.
+        * eapply uconv_bind with (v := fv') (rest := ts2 ++ rest); [apply Huv|].
+          eapply uconv_ext; [intros f0; cbv beta; rewrite Hset; reflexivity|]. apply Hu.
+      + intros fe0 [<- | Hin0]; [|apply Hdone; exact Hin0].
+        exists fv, fv'. auto.
+      + intros r0 ft0 Hr0 Hun0.
+        assert (Hu0 : unrelated r0 (fe_route fe) = true) by (apply Hun0; left; reflexivity).
+        destruct (Hframe r0 ft0 Hr0 (fun fe' Hin' => Hun0 fe' (or_intror Hin'))) as (Hf1 & Hf2 & Hf3).
+        split; [|split].
+        * intros x Hx. apply Hf1. eapply route_set_keeps; [exact Hwc | exact Hrk | exact Hu0 | exact Hset | exact Hx].
+        * intros Hb. apply Hf2. eapply route_set_blank; [exact Hwc | exact Hrk | exact Hr0 | exact Hu0 | exact Hset | exact Hb].
+        * intros Hn1 Hn2. apply Hf3; [exact Hn1|].
+          eapply route_set_none; [exact Hwv | exact Hwc | exact Hrk | exact Hr0 | exact Hu0 | exact Hset | | exact Hn1 | exact Hn2].
+          rewrite Hfv. discriminate.
+      + intros Hrm Hrvv. rewrite marshal_fields_S, Htr', (Hmv Hrm (rmv_traverse _ _ _ Hrvv Hfv)). cbn [mseq].
+        rewrite (Hmf Hrm Hrvv). reflexivity.
+  Qed.
+
+  Definition livep (v : gval) (fe : field_entry) : bool :=
+    negb (fe_ignore fe) &&
+    match traverse (fe_route fe) v with
+    | None => false
+    | Some fv => negb (fe_omit fe && is_empty fv)
+    end.
+
+  Lemma live_fields_eq fields v : live_fields fields v = filter (livep v) fields.
+  Proof. reflexivity. Qed.
+
+  (* ---- structs through their atlas entry ---- *)
+  Lemma step_entry f : P_fields f -> P_entry (S f).
+  Proof.
+    intros Hf e v ts Hg Hokv H. pose proof Hokv as [Hw Hdomv].
+    destruct (atlas_wf_entry E A _ e Hwf Hg) as [He _].
+    destruct (entry_wf_struct E e He) as (fields & id & Hkd & Hs & Hnb & Hfw & Hnd & Hro).
+    rewrite marshal_entry_S, Hkd in H. cbv zeta in H.
+    apply mprepend_ok in H. destruct H as (ts' & H & Hts). subst ts.
+    rewrite live_fields_eq in H.
+    set (st := ae_type e) in *. set (live := filter (livep v) fields) in *.
+    assert (Hlive : forall fe, In fe live -> In fe fields /\ fe_ignore fe = false /\ traverse (fe_route fe) v <> None).
+    { intros fe Hin. unfold live in Hin. apply filter_In in Hin. destruct Hin as [Hin Hp].
+      unfold livep in Hp. apply andb_true_iff in Hp. destruct Hp as [Hp1 Hp2]. apply negb_true_iff in Hp1.
+      split; [exact Hin|]. split; [exact Hp1|]. destruct (traverse (fe_route fe) v); [discriminate | discriminate Hp2]. }
+    assert (Hpfa : prefix_free (map fe_route (filter active fields)) = true).
+    { unfold routes_ok in Hro. apply andb_true_iff in Hro. apply Hro. }
+    assert (Hpf : prefix_free (map fe_route live) = true).
+    { unfold live. eapply prefix_free_filter; [|exact Hpfa].
+      intros fe Hp. unfold livep in Hp. apply andb_true_iff in Hp. unfold active. apply Hp. }
+    assert (Hwz : wt E A st (zero_of E st)) by (apply zero_of_wt; exact Hnb).
+    assert (Hblz : forall fe, In fe fields -> fe_ignore fe = false -> blankr E (fe_route fe) (fe_type fe) (zero_of E st)).
+    { intros fe Hin Hig. destruct (field_facts E st fields fe Hfw Hin Hig) as (Hrk & _). apply traverse_zero. exact Hrk. }
+    assert (Hblz' : forall fe, In fe live -> blank_at E fe (zero_of E st)).
+    { intros fe Hin. apply blank_at_iff. destruct (Hlive fe Hin) as (Hin' & Hig & _). apply Hblz; assumption. }
+    destruct (Hf st fields v live ts' Hokv Hfw Hnd Hlive Hpf H (zero_of E st) 0 Hwz Hblz')
+      as (v' & Hu & Hwv' & Hdone & Hframe & Hmf).
+    (* fields that are not emitted are unrelated to all emitted ones *)
+    assert (Hunl : forall fe, In fe fields -> fe_ignore fe = false -> ~ In fe live ->
+                   forall fe', In fe' live -> unrelated (fe_route fe) (fe_route fe') = true).
+    { intros fe Hin Hig Hnl fe' Hin'. destruct (Hlive fe' Hin') as (Hin2 & Hig2 & _).
+      apply (prefix_free_In fe_route (filter active fields) fe fe' Hpfa).
+      - apply filter_In. split; [exact Hin|]. unfold active. rewrite Hig. reflexivity.
+      - apply filter_In. split; [exact Hin2|]. unfold active. rewrite Hig2. reflexivity.
+      - intros Hc. subst fe'. contradiction. }
+    assert (Hnotlive : forall fe, In fe fields -> fe_ignore fe = false -> livep v fe = false ->
+              blank_at E fe v' /\ (traverse (fe_route fe) v = None -> traverse (fe_route fe) v' = None)).
+    { intros fe Hin Hig Hp.
+      assert (Hnl : ~ In fe live) by (unfold live; intros Hc; apply filter_In in Hc; destruct Hc; congruence).
+      destruct (field_facts E st fields fe Hfw Hin Hig) as (Hrk & _ & _).
+      destruct (Hframe (fe_route fe) (fe_type fe) Hrk (Hunl fe Hin Hig Hnl)) as (_ & Hb & Hn).
+      split.
+      - apply blank_at_iff. apply Hb. apply Hblz; assumption.
+      - intros Hnv. apply Hn; [exact Hnv|]. exact (traverse_none_zero E A _ st v _ Hw Hrk Hnv). }
+    assert (Hislive : forall fe, In fe fields -> livep v fe = true -> In fe live)
+      by (intros fe Hin Hp; unfold live; apply filter_In; auto).
+    destruct (wt_struct_inv E A st v id Hw Hs) as (fts & fs & Hv & Hef & Hwfs).
+    destruct (wt_struct_inv E A st v' id Hwv' Hs) as (fts' & fs' & Hv' & Hef' & Hwfs').
+    exists v'. split; [|split; [exact Hwv'|split]].
+    - rewrite Hv, Hv'. eapply req_struct; [exact Hg | exact Hkd |]. rewrite <- Hv, <- Hv'.
+      intros fe Hin Hig.
+      assert (Hp : livep v fe = match traverse (fe_route fe) v with None => false | Some fv => negb (fe_omit fe && is_empty fv) end)
+        by (unfold livep; rewrite Hig; reflexivity).
+      split; [|split].
+      + intros fv Hfv Hoe. rewrite Hfv, Hoe in Hp. cbn [negb] in Hp.
+        destruct (Hdone fe (Hislive fe Hin Hp)) as (fv0 & fv' & Hfv0 & Hfv' & Hr & _).
+        rewrite Hfv in Hfv0. inversion Hfv0; subst fv0. exists fv'. auto.
+      + intros fv Hfv Hoe. rewrite Hfv, Hoe in Hp. cbn [negb] in Hp.
+        apply (Hnotlive fe Hin Hig Hp).
+      + intros Hfv. rewrite Hfv in Hp. apply (Hnotlive fe Hin Hig Hp).
+    - intros rest. specialize (Hu rest). rewrite Z.add_0_l in Hu. eapply uconv_S; [|apply Hu]. intros f'.
+      rewrite unmarshal_entry_S, Hkd. reflexivity.
+    - intros Hrm Hrvv. rewrite marshal_entry_S, Hkd. cbv zeta. rewrite live_fields_eq.
+      assert (Hsame : filter (livep v') fields = live).
+      { unfold live. apply filter_ext_in. intros fe Hin. unfold livep at 1.
+        destruct (fe_ignore fe) eqn:Hig; [unfold livep; rewrite Hig; reflexivity|]. cbn [negb andb].
+        destruct (field_facts E st fields fe Hfw Hin Hig) as (Hrk & Hnbf & _).
+        destruct (livep v fe) eqn:Hp.
+        - destruct (Hdone fe (Hislive fe Hin Hp)) as (fv & fv' & Hfv & Hfv' & Hr & Hwf').
+          rewrite Hfv'. unfold livep in Hp. rewrite Hig, Hfv in Hp. cbn [negb andb] in Hp.
+          destruct (fe_omit fe) eqn:Hom; [|reflexivity]. cbn [andb] in *.
+          apply negb_true_iff in Hp. apply negb_true_iff.
+          eapply req_nonempty; [exact Hr | | | exact Hp].
+          + exact (traverse_wt E A _ st v _ fv Hw Hrk Hfv).
+          + eapply omit_ok_field; [exact Hrm | eapply atlas_get_In; exact Hg | exact Hkd | exact Hin | exact Hig | exact Hom].
+        - destruct (Hnotlive fe Hin Hig Hp) as (Hb & Hn).
+          unfold livep in Hp. rewrite Hig in Hp. cbn [negb andb] in Hp.
+          destruct (traverse (fe_route fe) v) as [fv|] eqn:Hfv.
+          + apply negb_false_iff in Hp. apply andb_true_iff in Hp. destruct Hp as [Hom Hem].
+            unfold blank_at in Hb. destruct (traverse (fe_route fe) v') as [z|]; [|reflexivity].
+            subst z. rewrite Hom. cbn [andb]. apply negb_false_iff.
+            eapply is_empty_zero; [| exact Hem | | exact Hnbf].
+            * exact (traverse_wt E A _ st v _ fv Hw Hrk Hfv).
+            * eapply omit_ok_field; [exact Hrm | eapply atlas_get_In; exact Hg | exact Hkd | exact Hin | exact Hig | exact Hom].
+          + rewrite (Hn eq_refl). reflexivity. }
+      rewrite Hsame, (Hmf Hrm Hrvv). reflexivity.
+  Qed.
+
+  Lemma P_step f : P_all f -> P_all (S f).
+  Proof.
+    intros (Hm & Hb & Hk & Hi & He & Hmap & Hen & Hf).
+    repeat split.
+    - apply step_marshal; assumption.
+    - apply step_bare; assumption.
+    - apply step_kind; assumption.
+    - apply step_items; assumption.
+    - apply step_entries; assumption.
+    - apply step_map; assumption.
+    - apply step_entry; assumption.
+    - apply step_fields; assumption.
+  Qed.
+
+  Lemma P_all_holds f : P_all f.
+  Proof. induction f; [apply P_zero | apply P_step; assumption]. Qed.
+End Main.
+
+(* ====================================================================== *)
+(* Part 9.  The round-trip theorems                                          *)
+(* ====================================================================== *)
+
+(* the general form: any trailing tokens, any sufficiently large fuel, the
+   result is well typed, and (when omitempty fields are of types whose
+   emptiness survives the round trip, and interface values are native) it
+   marshals to the same tokens again *)
+Theorem roundtrip_general : forall E A t v f ts,
+  atlas_wf E A = true -> wt E A t v -> domb E A t v = true -> marshal A f t v = MOk ts ->
+  exists v',
+    req E A t v v' /\ wt E A t v' /\
+    (exists F, forall f' rest, (F <= f')%nat -> unmarshal E A f' t (zero 50 E t) (ts ++ rest) = UOk v' rest) /\
+    (omit_ok A = true -> rmv v = true -> forall f'', (f <= f'')%nat -> marshal A f'' t v' = MOk ts).
+Proof.
+  intros E A t v f ts Hwf Hw Hd H.
+  destruct (P_all_holds E A Hwf f) as (Hm & _).
+  destruct (Hm t v ts (conj Hw Hd) H) as (v' & Hr & Hw' & Hu & Hrm).
+  exists v'. split; [exact Hr|]. split; [exact Hw'|]. split.
+  - destruct (Hu []) as [F HF]. exists F. intros f' rest Hle.
+    rewrite <- zero_of_unf. specialize (HF f' Hle). cbv beta in HF. rewrite app_nil_r in HF.
+    apply (unmarshal_frame_ok E A f' t (zero_of E t) ts v' [] rest HF).
+  - intros Ho Hrv f'' Hle.
+    rewrite (marshal_fuel_mono A f f'' t v'); [apply Hrm; assumption | rewrite (Hrm Ho Hrv); discriminate | exact Hle].
+Qed.
+Print Assumptions roundtrip_general.
+
+(* ---------- stage 1: no atlas entries ---------------------------------------------- *)
+
+Fixpoint plain_type (t : gtype) : bool :=
+  match t with
+  | GBool | GNum _ | GF32 | GF64 | GStr | GBytes | GByteArr _ => true
+  | GSlice t' | GArr _ t' | GPtr t' | GNamed _ t' => plain_type t'
+  | GMap k v => is_string_kind k && plain_type k && plain_type v
+  | _ => false
+  end.
+
+Section gval_ind.
+  Variable P : gval -> Prop.
+  Hypothesis Hbool : forall b, P (GVBool b).
+  Hypothesis Hnum : forall z, P (VNum z).
+  Hypothesis Hflt : forall b, P (GVFlt b).
+  Hypothesis Hstr : forall s, P (GVStr s).
+  Hypothesis Hbytes : forall o, P (VBytes o).
+  Hypothesis Hbytearr : forall s, P (VByteArr s).
+  Hypothesis Hslice_nil : P (VSlice None).
+  Hypothesis Hslice : forall l, Forall P l -> P (VSlice (Some l)).
+  Hypothesis Harr : forall l, Forall P l -> P (GVArr l).
+  Hypothesis Hmap_nil : P (GVMap None).
+  Hypothesis Hmap : forall es, Forall (fun kv => P (fst kv) /\ P (snd kv)) es -> P (GVMap (Some es)).
+  Hypothesis Hptr_nil : P (VPtr None).
+  Hypothesis Hptr : forall x, P x -> P (VPtr (Some x)).
+  Hypothesis Hany_nil : P (VAny None).
+  Hypothesis Hany : forall t x, P x -> P (VAny (Some (t, x))).
+  Hypothesis Hstruct : forall l, Forall P l -> P (VStruct l).
+  Hypothesis Hbad : P VBadV.
+
+  Fixpoint gval_ind' (v : gval) : P v.
+  Proof.
+    destruct v as [b|z|b|s|o|s|o|l|o|o|o|l|].
+    - apply Hbool. - apply Hnum. - apply Hflt. - apply Hstr. - apply Hbytes. - apply Hbytearr.
+    - destruct o as [l|]; [|apply Hslice_nil]. apply Hslice.
+      induction l as [|x l IH]; constructor; [apply gval_ind' | exact IH].
+    - apply Harr. induction l as [|x l IH]; constructor; [apply gval_ind' | exact IH].
+    - destruct o as [es|]; [|apply Hmap_nil]. apply Hmap.
+      induction es as [|[k x] es IH]; constructor; [split; apply gval_ind' | exact IH].
+    - destruct o as [x|]; [|apply Hptr_nil]. apply Hptr. apply gval_ind'.
+    - destruct o as [[t x]|]; [|apply Hany_nil]. apply Hany. apply gval_ind'.
+    - apply Hstruct. induction l as [|x l IH]; constructor; [apply gval_ind' | exact IH].
+    - apply Hbad.
+  Defined.
+End gval_ind.
+
+Lemma plain_strip t : plain_type t = true -> plain_type (strip_named t) = true.
+Proof. induction t; cbn; auto. Qed.
+
+(* values of stage-1 types hold no interface values: they are in the domain, and native *)
+Lemma plain_dom E A : forall v t,
+  plain_type t = true -> wt E A t v -> domb E A t v = true /\ rmv v = true.
+Proof.
+  intros v. induction v using gval_ind'; intros ty Hp Hw; apply plain_strip in Hp; unfold wt in Hw;
+    cbn [wtb] in Hw; cbn [domb rmv]; destruct (strip_named ty) eqn:Hs; try discriminate Hw; try discriminate Hp;
+    try (split; reflexivity).
+  - (* slice *)
+    cbn [plain_type] in Hp. rewrite forallb_forall in Hw.
+    split; apply forallb_forall; intros x Hx; rewrite Forall_forall in H; apply (H x Hx g Hp (Hw x Hx)).
+  - (* array *)
+    cbn [plain_type] in Hp. apply andb_true_iff in Hw. destruct Hw as [_ Hw]. rewrite forallb_forall in Hw.
+    split; apply forallb_forall; intros x Hx; rewrite Forall_forall in H; apply (H x Hx g Hp (Hw x Hx)).
+  - (* map *)
+    cbn [plain_type] in Hp. apply andb_true_iff in Hp. destruct Hp as [_ Hpv].
+    apply andb_true_iff in Hw. destruct Hw as [Hw _]. apply andb_true_iff in Hw. destruct Hw as [_ Hw].
+    rewrite forallb_forall in Hw. rewrite Forall_forall in H.
+    split; apply forallb_forall; intros kv Hkv; specialize (Hw kv Hkv); apply andb_true_iff in Hw;
+      destruct (H kv Hkv) as [_ Hv]; apply (Hv g2 Hpv); apply Hw.
+  - (* pointer *)
+    cbn [plain_type] in Hp. apply (IHv g Hp Hw).
+Qed.
+
+Theorem roundtrip_stage1 : forall E mode t v f ts,
+  plain_type t = true -> wt E (Atlas [] mode) t v -> marshal (Atlas [] mode) f t v = MOk ts ->
+  exists f' v', unmarshal E (Atlas [] mode) f' t (zero 50 E t) ts = UOk v' [] /\ req E (Atlas [] mode) t v v'.
+Proof.
+  intros E mode t v f ts Hp Hw H.
+  destruct (plain_dom E (Atlas [] mode) v t Hp Hw) as [Hd _].
+  destruct (roundtrip_general E (Atlas [] mode) t v f ts eq_refl Hw Hd H) as (v' & Hr & _ & [F HF] & _).
+  exists F, v'. split; [|exact Hr]. specialize (HF F [] (le_n _)). rewrite app_nil_r in HF. exact HF.
+Qed.
+Print Assumptions roundtrip_stage1.
+
+(* the re-marshal corollary: the value read back marshals to the same tokens *)
+Theorem roundtrip_stage1_remarshal : forall E mode t v f ts,
+  plain_type t = true -> wt E (Atlas [] mode) t v -> marshal (Atlas [] mode) f t v = MOk ts ->
+  exists f' v', unmarshal E (Atlas [] mode) f' t (zero 50 E t) ts = UOk v' [] /\ req E (Atlas [] mode) t v v' /\
+    forall f'', (f <= f'')%nat -> marshal (Atlas [] mode) f'' t v' = MOk ts.
+Proof.
+  intros E mode t v f ts Hp Hw H.
+  destruct (plain_dom E (Atlas [] mode) v t Hp Hw) as [Hd Hrv].
+  destruct (roundtrip_general E (Atlas [] mode) t v f ts eq_refl Hw Hd H) as (v' & Hr & _ & [F HF] & Hm).
+  exists F, v'. split; [|split; [exact Hr | apply Hm; [reflexivity | exact Hrv]]].
+  specialize (HF F [] (le_n _)). rewrite app_nil_r in HF. exact HF.
+Qed.
+Print Assumptions roundtrip_stage1_remarshal.
+
+(* ---------- stages 2 and 3: structs through the atlas, untyped slots ---------------- *)
+
+(* values without interface values are in the domain *)
+Fixpoint no_any (v : gval) : bool :=
+  match v with
+  | VAny (Some _) => false
+  | VSlice (Some l) | GVArr l | VStruct l => forallb no_any l
+  | GVMap (Some es) => forallb (fun kv => no_any (snd kv)) es
+  | VPtr (Some x) => no_any x
+  | _ => true
+  end.
+
+Lemma no_any_dom E A : forall v t, no_any v = true -> domb E A t v = true /\ rmv v = true.
+Proof.
+  intros v. induction v using gval_ind'; intros ty Hn; cbn [domb rmv]; try (destruct (strip_named ty); split; reflexivity).
+  - cbn [no_any] in Hn. rewrite forallb_forall in Hn. rewrite Forall_forall in H. split.
+    + destruct (strip_named ty); try reflexivity. apply forallb_forall. intros x Hx. apply (H x Hx). apply Hn. exact Hx.
+    + apply forallb_forall. intros x Hx. apply (H x Hx GBool). apply Hn. exact Hx.
+  - cbn [no_any] in Hn. rewrite forallb_forall in Hn. rewrite Forall_forall in H. split.
+    + destruct (strip_named ty); try reflexivity. apply forallb_forall. intros x Hx. apply (H x Hx). apply Hn. exact Hx.
+    + apply forallb_forall. intros x Hx. apply (H x Hx GBool). apply Hn. exact Hx.
+  - cbn [no_any] in Hn. rewrite forallb_forall in Hn. rewrite Forall_forall in H. split.
+    + destruct (strip_named ty); try reflexivity. apply forallb_forall. intros kv Hkv.
+      destruct (H kv Hkv) as [_ Hv]. apply Hv. apply Hn. exact Hkv.
+    + apply forallb_forall. intros kv Hkv. destruct (H kv Hkv) as [_ Hv]. apply (Hv GBool). apply Hn. exact Hkv.
+  - cbn [no_any] in Hn. split.
+    + destruct (strip_named ty); try reflexivity. apply IHv. exact Hn.
+    + apply (IHv GBool). exact Hn.
+  - discriminate Hn.
+  - cbn [no_any] in Hn. rewrite forallb_forall in Hn. rewrite Forall_forall in H. split.
+    + change (domb E A ty (VStruct l) = true). rewrite dom_struct_eq. destruct (strip_named ty); try reflexivity.
+      destruct (env_fields E id) as [fts|]; [|reflexivity].
+      revert fts. induction l as [|x l IH]; intros [|ft fts]; try reflexivity. cbn [dom_fields].
+      apply andb_true_iff. split.
+      * apply (H x (or_introl eq_refl) ft). apply Hn. left. reflexivity.
+      * apply IH; intros y Hy; [apply H | apply Hn]; right; exact Hy.
+    + apply forallb_forall. intros x Hx. apply (H x Hx GBool). apply Hn. exact Hx.
+Qed.
+
+Theorem roundtrip_stage2 : forall E A t v f ts,
+  atlas_wf E A = true -> wt E A t v -> no_any v = true -> marshal A f t v = MOk ts ->
+  exists f' v', unmarshal E A f' t (zero 50 E t) ts = UOk v' [] /\ req E A t v v'.
+Proof.
+  intros E A t v f ts Hwf Hw Hn H.
+  destruct (no_any_dom E A v t Hn) as [Hd _].
+  destruct (roundtrip_general E A t v f ts Hwf Hw Hd H) as (v' & Hr & _ & [F HF] & _).
+  exists F, v'. split; [|exact Hr]. specialize (HF F [] (le_n _)). rewrite app_nil_r in HF. exact HF.
+Qed.
+Print Assumptions roundtrip_stage2.
+
+Theorem roundtrip_stage2_remarshal : forall E A t v f ts,
+  atlas_wf E A = true -> omit_ok A = true -> wt E A t v -> no_any v = true -> marshal A f t v = MOk ts ->
+  exists f' v', unmarshal E A f' t (zero 50 E t) ts = UOk v' [] /\ req E A t v v' /\
+    forall f'', (f <= f'')%nat -> marshal A f'' t v' = MOk ts.
+Proof.
+  intros E A t v f ts Hwf Ho Hw Hn H.
+  destruct (no_any_dom E A v t Hn) as [Hd Hrv].
+  destruct (roundtrip_general E A t v f ts Hwf Hw Hd H) as (v' & Hr & _ & [F HF] & Hm).
+  exists F, v'. split; [|split; [exact Hr | apply Hm; assumption]].
+  specialize (HF F [] (le_n _)). rewrite app_nil_r in HF. exact HF.
+Qed.
+Print Assumptions roundtrip_stage2_remarshal.
+
+(* stage 3: interface values of the domain [domb] *)
+Theorem roundtrip_stage3 : forall E A t v f ts,
+  atlas_wf E A = true -> wt E A t v -> domb E A t v = true -> marshal A f t v = MOk ts ->
+  exists f' v', unmarshal E A f' t (zero 50 E t) ts = UOk v' [] /\ req E A t v v'.
+Proof.
+  intros E A t v f ts Hwf Hw Hd H.
+  destruct (roundtrip_general E A t v f ts Hwf Hw Hd H) as (v' & Hr & _ & [F HF] & _).
+  exists F, v'. split; [|exact Hr]. specialize (HF F [] (le_n _)). rewrite app_nil_r in HF. exact HF.
+Qed.
+Print Assumptions roundtrip_stage3.
+
+(* ---------- the re-marshal statement is FALSE without [omit_ok] ---------------- *)
+
+(* an omitempty field holding a non-nil pointer to a nil slice: emitted as Null,
+   read back as a nil pointer, which is empty and omitted the second time *)
+Definition rm_E1 : tenv := [(1, [GPtr (GSlice GStr)])].
+Definition rm_A1 : atlas :=
+  Atlas [AE (GStruct 1) None (EStruct [FE [97] [0%nat] (GPtr (GSlice GStr)) true false])] 0.
+Definition rm_v1 : gval := VStruct [VPtr (Some (VSlice None))].
+
+Example remarshal_refuted_ptr_to_nil :
+  atlas_wf rm_E1 rm_A1 = true /\ wtb rm_E1 rm_A1 (GStruct 1) rm_v1 = true /\ no_any rm_v1 = true /\
+  omit_ok rm_A1 = false /\
+  marshal rm_A1 20 (GStruct 1) rm_v1 =
+    MOk [Tok (MapOpen 1) None; Tok (Str [97]) None; Tok Null None; Tok MapClose None] /\
+  unmarshal rm_E1 rm_A1 20 (GStruct 1) (zero 50 rm_E1 (GStruct 1))
+    [Tok (MapOpen 1) None; Tok (Str [97]) None; Tok Null None; Tok MapClose None] = UOk (VStruct [VPtr None]) [] /\
+  marshal rm_A1 20 (GStruct 1) (VStruct [VPtr None]) = MOk [Tok (MapOpen 0) None; Tok MapClose None].
+Proof. vm_compute. repeat split; reflexivity. Qed.
+
+(* an omitempty struct field whose only non-zero data is in a field the atlas
+   does not mention: emitted as an empty map, read back as the zero struct,
+   omitted the second time *)
+Definition rm_E2 : tenv := [(1, [GStruct 2]); (2, [GNum IInt; GNum IInt])].
+Definition rm_A2 : atlas :=
+  Atlas [AE (GStruct 1) None (EStruct [FE [115] [0%nat] (GStruct 2) true false]);
+         AE (GStruct 2) None (EStruct [FE [97] [0%nat] (GNum IInt) true false])] 0.
+Definition rm_v2 : gval := VStruct [VStruct [VNum 0; VNum 7]].
+
+Example remarshal_refuted_unmentioned_field :
+  atlas_wf rm_E2 rm_A2 = true /\ wtb rm_E2 rm_A2 (GStruct 1) rm_v2 = true /\ no_any rm_v2 = true /\
+  omit_ok rm_A2 = false /\
+  marshal rm_A2 20 (GStruct 1) rm_v2 =
+    MOk [Tok (MapOpen 1) None; Tok (Str [115]) None; Tok (MapOpen 0) None; Tok MapClose None; Tok MapClose None] /\
+  unmarshal rm_E2 rm_A2 20 (GStruct 1) (zero 50 rm_E2 (GStruct 1))
+    [Tok (MapOpen 1) None; Tok (Str [115]) None; Tok (MapOpen 0) None; Tok MapClose None; Tok MapClose None]
+    = UOk (VStruct [VStruct [VNum 0; VNum 0]]) [] /\
+  marshal rm_A2 20 (GStruct 1) (VStruct [VStruct [VNum 0; VNum 0]]) = MOk [Tok (MapOpen 0) None; Tok MapClose None].
+Proof. vm_compute. repeat split; reflexivity. Qed.
+
+(* ---------- the re-marshal statement is FALSE without [rmv] --------------------- *)
+
+(* a uint8 in an untyped slot is emitted as Uint, read back as int, emitted as Int *)
+Example remarshal_refuted_any_uint8 :
+  let A := Atlas [] 0 in
+  let v := VAny (Some (GNum U8, VNum 5)) in
+  wtb [] A GAny v = true /\ domb [] A GAny v = true /\ rmv v = false /\
+  marshal A 20 GAny v = MOk [Tok (Uint 5) None] /\
+  unmarshal [] A 20 GAny (zero 50 [] GAny) [Tok (Uint 5) None] = UOk (VAny (Some (GNum IInt, VNum 5))) [] /\
+  marshal A 20 GAny (VAny (Some (GNum IInt, VNum 5))) = MOk [Tok (Int 5) None].
+Proof. vm_compute. repeat split; reflexivity. Qed.
+
+(* ---------- outside the domain [domb] the dynamic type is not reconstructed ------- *)
+
+(* a []string in an untyped slot comes back as []interface{} of strings: the
+   relation [req] does not relate these, so such values are excluded by [domb] *)
+Example any_typed_slice_outside_domain :
+  let A := Atlas [] 0 in
+  let v := VAny (Some (GSlice GStr, VSlice (Some [GVStr [97]]))) in
+  wtb [] A GAny v = true /\ domb [] A GAny v = false /\
+  marshal A 20 GAny v = MOk [Tok (ArrOpen 1) None; Tok (Str [97]) None; Tok ArrClose None] /\
+  unmarshal [] A 20 GAny (zero 50 [] GAny) [Tok (ArrOpen 1) None; Tok (Str [97]) None; Tok ArrClose None]
+    = UOk (VAny (Some (GSlice GAny, VSlice (Some [VAny (Some (GStr, GVStr [97]))])))) [].
+Proof. vm_compute. repeat split; reflexivity. Qed.
+
+(* ---------- a non-trivial instance ------------------------------------------------ *)
+
+(* struct 1 { S string `omitempty`; *struct 2 (embedded pointer); M map[string]int32; B [3]byte;
+              F []float32 `omitempty`; X interface{} }
+   struct 2 { N uint8; In *struct 3 }      struct 3 { Ok bool }, tagged 9 *)
+Definition ex_E : tenv :=
+  [(1, [GStr; GPtr (GStruct 2); GMap GStr (GNum I32); GByteArr 3; GSlice GF32; GAny]);
+   (2, [GNum U8; GPtr (GStruct 3)]);
+   (3, [GBool])].
+Definition ex_A : atlas :=
+  Atlas [AE (GStruct 1) (Some 7)
+            (EStruct [FE [115] [0%nat] GStr true false;
+                      FE [110] [1%nat; 0%nat] (GNum U8) false false;
+                      FE [105] [1%nat; 1%nat] (GPtr (GStruct 3)) true false;
+                      FE [109] [2%nat] (GMap GStr (GNum I32)) false false;
+                      FE [98] [3%nat] (GByteArr 3) false false;
+                      FE [102] [4%nat] (GSlice GF32) true false;
+                      FE [120] [5%nat] GAny false false;
+                      FE [122] [] GBool false true]);
+         AE (GStruct 3) (Some 9) (EStruct [FE [111; 107] [0%nat] GBool false false])] 0.
+Definition ex_any : gval :=
+  VAny (Some (GSlice GAny, VSlice (Some [VAny (Some (GStruct 3, VStruct [GVBool false]));
+                                          VAny (Some (GNum IInt, VNum (-3)));
+                                          VAny (Some (GMap GStr GAny, GVMap (Some [(GVStr [107], VAny None)])))]))).
+Definition ex_v : gval :=
+  VStruct [GVStr [];
+           VPtr (Some (VStruct [VNum 200; VPtr (Some (VStruct [GVBool true]))]));
+           GVMap (Some [(GVStr [98], VNum 2); (GVStr [97], VNum (-1))]);
+           VByteArr [1; 2; 3];
+           VSlice None;
+           ex_any].
+Definition ex_v' : gval :=
+  VStruct [GVStr [];
+           VPtr (Some (VStruct [VNum 200; VPtr (Some (VStruct [GVBool true]))]));
+           GVMap (Some [(GVStr [97], VNum (-1)); (GVStr [98], VNum 2)]);
+           VByteArr [1; 2; 3];
+           VSlice None;
+           ex_any].
+Definition ex_ts : list token :=
+  [Tok (MapOpen 5) (Some 7);
+   Tok (Str [110]) None; Tok (Uint 200) None;
+   Tok (Str [105]) None; Tok (MapOpen 1) (Some 9); Tok (Str [111; 107]) None; Tok (Bool true) None; Tok MapClose None;
+   Tok (Str [109]) None; Tok (MapOpen 2) None; Tok (Str [97]) None; Tok (Int (-1)) None;
+                         Tok (Str [98]) None; Tok (Int 2) None; Tok MapClose None;
+   Tok (Str [98]) None; Tok (Byt [1; 2; 3]) None;
+   Tok (Str [120]) None; Tok (ArrOpen 3) None;
+      Tok (MapOpen 1) (Some 9); Tok (Str [111; 107]) None; Tok (Bool false) None; Tok MapClose None;
+      Tok (Int (-3)) None;
+      Tok (MapOpen 1) None; Tok (Str [107]) None; Tok Null None; Tok MapClose None;
+      Tok ArrClose None;
+   Tok MapClose None].
+
+Example ex_hypotheses :
+  atlas_wf ex_E ex_A = true /\ omit_ok ex_A = true /\ wtb ex_E ex_A (GStruct 1) ex_v = true /\
+  domb ex_E ex_A (GStruct 1) ex_v = true /\ rmv ex_v = true.
+Proof. vm_compute. repeat split; reflexivity. Qed.
+
+Example ex_conclusion :
+  marshal ex_A 30 (GStruct 1) ex_v = MOk ex_ts /\
+  unmarshal ex_E ex_A 30 (GStruct 1) (zero 50 ex_E (GStruct 1)) ex_ts = UOk ex_v' [] /\
+  marshal ex_A 30 (GStruct 1) ex_v' = MOk ex_ts.
+Proof. vm_compute. repeat split; reflexivity. Qed.
+
+(* ====================================================================== *)
+(* The most general statements proved                                        *)
+(* ====================================================================== *)
+
+(* Marshalling a well-typed value of the domain and unmarshalling the tokens
+   into the zero value of the same type, with the same atlas, consumes all the
+   tokens and yields a round-trip-equal value. *)
+Theorem token_roundtrip : forall E A t v f ts,
+  atlas_wf E A = true -> wt E A t v -> domb E A t v = true -> marshal A f t v = MOk ts ->
+  exists f' v', unmarshal E A f' t (zero 50 E t) ts = UOk v' [] /\ req E A t v v' /\ wt E A t v'.
+Proof.
+  intros E A t v f ts Hwf Hw Hd H.
+  destruct (roundtrip_general E A t v f ts Hwf Hw Hd H) as (v' & Hr & Hw' & [F HF] & _).
+  exists F, v'. split; [|split; [exact Hr | exact Hw']].
+  specialize (HF F [] (le_n _)). rewrite app_nil_r in HF. exact HF.
+Qed.
+Print Assumptions token_roundtrip.
+
+(* ... and the value read back marshals to the same tokens again (for every
+   fuel at least the one that sufficed the first time). *)
+Theorem token_roundtrip_remarshal : forall E A t v f ts,
+  atlas_wf E A = true -> omit_ok A = true -> wt E A t v -> domb E A t v = true -> rmv v = true ->
+  marshal A f t v = MOk ts ->
+  exists f' v', unmarshal E A f' t (zero 50 E t) ts = UOk v' [] /\ req E A t v v' /\
+    forall f'', (f <= f'')%nat -> marshal A f'' t v' = MOk ts.
+Proof.
+  intros E A t v f ts Hwf Ho Hw Hd Hrv H.
+  destruct (roundtrip_general E A t v f ts Hwf Hw Hd H) as (v' & Hr & _ & [F HF] & Hm).
+  exists F, v'. split; [|split; [exact Hr | apply Hm; assumption]].
+  specialize (HF F [] (le_n _)). rewrite app_nil_r in HF. exact HF.
+Qed.
+Print Assumptions token_roundtrip_remarshal.
